@@ -1,12 +1,18 @@
-(* DP oracle soundness: the executable monitors of coq/Model/DpOracle.v (c03_monitor, c04_monitor, c08_monitor,
-   c14_monitor), which ocaml/run_dp.ml runs on the IMPLEMENTATION's transcripts, accept every transcript of the
-   MODEL (DpRun.run_in + DpRun.auto_take + DpRun.observe, from DpRun.init_sys) that respects the FdlApplication
-   contract (DpOracle.contract_ok) and the driver's guards (driver_ok), for every configuration within the
-   generator's limits (conf_ok).  So a failure code of these monitors on an implementation transcript that
-   agrees with the model (0 divergences) is never a false alarm.
+(* DP oracle soundness: the executable monitors of coq/Model/DpOracle.v which ocaml/run_dp.ml runs on the
+   IMPLEMENTATION's transcripts (c03_monitor_ra, c04_monitor_ra, c08_monitor_ra, c14_monitor_ra, and the monitors
+   c03_monitor .. c14_monitor they wrap) accept every transcript of the MODEL (DpRun.run_in + DpRun.auto_take +
+   DpRun.observe, from DpRun.init_sys) that respects the FdlApplication contract (DpOracle.contract_ok) and the
+   driver's guards (driver_ok; ra_sane; reset_guard = reset_address only to a station address 0..125 and only
+   while no reply of that peripheral is outstanding, i.e. outside the known class F22
+   DpOracle.known_reset_while_pending), for every configuration within the generator's limits (conf_ok).  So a
+   failure code of these monitors on an implementation transcript that agrees with the model (0 divergences)
+   is never a false alarm.
    Structure: PART 1-2 ghost wire monitors per slot (DpHistory.Inv) through one call of the master model;
-   PART 3-5 the model's transcript, set-up, look-ups; PART 6 generic induction; PART 7-11 C08, C03, C04;
-   PART 12- C14. *)
+   PART 3-5 the model's transcript, set-up, look-ups (the configuration `c` of the invariants is the one IN FORCE:
+   station addresses as changed by reset_address); PART 6-11 per-address monitor states, the steps of C08, C03,
+   C04; PART 12-17 C14; PART 18 a computed history; PART 20-22 reset_address steps, the induction over
+   transcripts, the theorems cXX_oracle_sound_ra; PART 23 histories without reset_address (cXX_ra_agrees,
+   cXX_oracle_sound), the guard from the driver's known-class test, a computed history with reset_address. *)
 From PB Require Import Peripheral DpMaster DpRun DpOracle DpStepProofs C09Proofs C14Proofs C14History DpHistory.
 From PB Require Import C04Proofs.
 From Coq Require Import Sorted.
@@ -704,15 +710,26 @@ Record conf_ok (c : conf) : Prop := mkConfOk {
 Definition fits (pc : pconf) (p : periph) : Prop :=
   pe_addr p = pc_addr pc /\ pe_opts p = pc_opts pc /\ length (pe_pi_i p) = pc_in pc /\ length (pe_pi_q p) = pc_out pc.
 
+(* c = the configuration in force: the configuration of the case (sy_conf s) with the station addresses as
+   changed by reset_address calls *)
+Definition conf_like (c0 c : conf) : Prop :=
+  cf_params c = cf_params c0 /\ cf_bufsize c = cf_bufsize c0 /\ cf_autotake c = cf_autotake c0 /\
+  length (cf_periphs c) = length (cf_periphs c0).
+
+Lemma conf_like_refl : forall c, conf_like c c.
+Proof. intro c. repeat split; reflexivity. Qed.
+
+(* handles are compared by slot index only: the address a handle carries is stale after reset_address *)
 Record SInv (c : conf) (s : sys) : Prop := mkSInv {
-  si_conf : sy_conf s = c;
+  si_conf : conf_like (sy_conf s) c;
   si_len : length (sy_handles s) = length (cf_periphs c);
   si_events : dm_events (sy_m s) = events_default;
   si_h : forall k h, nth_error (sy_handles s) k = Some (Some h) ->
-           exists pc p, nth_error (cf_periphs c) k = Some pc /\ slot (sy_m s) (hd_index h) = Some p /\
-                        hd_addr h = pc_addr pc /\ fits pc p;
+           exists pc p, nth_error (cf_periphs c) k = Some pc /\ slot (sy_m s) (hd_index h) = Some p /\ fits pc p;
   si_s : forall i p, slot (sy_m s) i = Some p ->
-           exists k, nth_error (sy_handles s) k = Some (Some (mkHandle i (pe_addr p))) }.
+           exists k h, nth_error (sy_handles s) k = Some (Some h) /\ hd_index h = i;
+  si_late : forall k, nth_error (sy_handles s) k = Some None ->
+           nth_error (cf_periphs (sy_conf s)) k = nth_error (cf_periphs c) k }.
 
 Definition shape_eq (q q' : periph) : Prop :=
   pe_addr q' = pe_addr q /\ pe_opts q' = pe_opts q /\ length (pe_pi_i q') = length (pe_pi_i q) /\
@@ -724,16 +741,15 @@ Lemma sinv_step : forall c s s',
   (forall j q', slot (sy_m s') j = Some q' -> exists q, slot (sy_m s) j = Some q) ->
   SInv c s'.
 Proof.
-  intros c s s' [H1 H2 H3 H4 H5] Hc Hh He Hfw Hbw. constructor.
-  - congruence.
+  intros c s s' [H1 H2 H3 H4 H5 H6] Hc Hh He Hfw Hbw. constructor.
+  - rewrite Hc. exact H1.
   - rewrite Hh. exact H2.
   - exact He.
-  - intros k h Hk. rewrite Hh in Hk. destruct (H4 k h Hk) as (pc & p & Hpc & Hs & Ha & (F1 & F2 & F3 & F4)).
+  - intros k h Hk. rewrite Hh in Hk. destruct (H4 k h Hk) as (pc & p & Hpc & Hs & (F1 & F2 & F3 & F4)).
     destruct (Hfw _ _ Hs) as (q' & Hq' & (E1 & E2 & E3 & E4)). exists pc, q'.
-    split; [exact Hpc|]. split; [exact Hq'|]. split; [exact Ha|]. unfold fits. repeat split; congruence.
-  - intros i q' Hq'. rewrite Hh. destruct (Hbw _ _ Hq') as (q & Hq).
-    destruct (Hfw _ _ Hq) as (q2 & Hq2 & (E1 & _)). rewrite Hq' in Hq2. inversion Hq2; subst q2.
-    rewrite E1. apply H5. exact Hq.
+    split; [exact Hpc|]. split; [exact Hq'|]. unfold fits. repeat split; congruence.
+  - intros i q' Hq'. rewrite Hh. destruct (Hbw _ _ Hq') as (q & Hq). apply (H5 _ _ Hq).
+  - intros k Hk. rewrite Hh in Hk. rewrite Hc. apply H6. exact Hk.
 Qed.
 
 Lemma mask_slot_back : forall m m' j q', mask m' = mask m -> slot m' j = Some q' -> exists q, slot m j = Some q.
@@ -916,7 +932,10 @@ Lemma init_invariants : forall c s0,
   conf_ok c -> init_sys c = Ok s0 ->
   SInv c s0 /\ GInv (cf_params c) (sy_m s0) (fun _ => ghost0) None /\
   dm_op (sy_m s0) = OpStop /\ dm_cycle (sy_m s0) = CyDataExchange 0 /\
-  (forall i p, slot (sy_m s0) i = Some p -> exists k pc, nth_error (cf_periphs c) k = Some pc /\ p = periph_of_conf pc).
+  (forall i p, slot (sy_m s0) i = Some p -> exists k pc, nth_error (cf_periphs c) k = Some pc /\ p = periph_of_conf pc) /\
+  (forall k h, nth_error (sy_handles s0) k = Some (Some h) ->
+     exists pc, nth_error (cf_periphs c) k = Some pc /\ hd_addr h = pc_addr pc) /\
+  sy_conf s0 = c.
 Proof.
   intros c s0 Hc H. unfold init_sys in H.
   set (m1 := set_slots (dp_new (cf_nslots c) (cf_owned c))
@@ -939,9 +958,20 @@ Proof.
   { intros i p Hp. destruct (Hback _ _ Hp) as [H1|(k & pc & h & H1 & _ & _ & _ & _ & H6)].
     - destruct (Hm1 _ _ H1) as (k & pc & H2 & _ & H3). exists k, pc. auto.
     - exists k, pc. auto. }
-  split; [|split; [|split; [|split]]].
+  assert (Hhaddr : forall k h, nth_error hs k = Some (Some h) ->
+            exists pc, nth_error (cf_periphs c) k = Some pc /\ hd_addr h = pc_addr pc).
+  { intros k h Hh.
+    destruct (nth_error (cf_periphs c) k) as [pc|] eqn:Epc.
+    2:{ apply nth_error_None in Epc. assert (Hx : nth_error hs k = None) by (apply nth_error_None; lia).
+        rewrite Hx in Hh. discriminate Hh. }
+    specialize (Hk _ _ Epc). exists pc. split; [reflexivity|].
+    destruct (pc_slot pc) as [i|] eqn:Es.
+    - rewrite Hk in Hh. inversion Hh; subst h. reflexivity.
+    - destruct (pc_late pc); [rewrite Hk in Hh; discriminate Hh|].
+      destruct Hk as (h' & H1 & H2 & _). rewrite H1 in Hh. inversion Hh; subst h'. exact H2. }
+  split; [|split; [|split; [|split; [|split; [|split; [exact Hhaddr|reflexivity]]]]]].
   - constructor; cbn [sy_m sy_conf sy_handles].
-    + reflexivity.
+    + apply conf_like_refl.
     + exact Hl.
     + rewrite F1. reflexivity.
     + intros k h Hh.
@@ -952,16 +982,15 @@ Proof.
       destruct (pc_slot pc) as [i|] eqn:Es.
       * rewrite Hk in Hh. inversion Hh; subst h. cbn [hd_index hd_addr].
         exists (periph_of_conf pc). split; [reflexivity|].
-        split; [apply Hmono; apply (Hplaced k); assumption|]. split; [reflexivity|apply periph_of_conf_fits].
+        split; [apply Hmono; apply (Hplaced k); assumption|apply periph_of_conf_fits].
       * destruct (pc_late pc); [rewrite Hk in Hh; discriminate Hh|].
         destruct Hk as (h' & H1 & H2 & H3 & H4). rewrite H1 in Hh. inversion Hh; subst h'.
-        exists (periph_of_conf pc). split; [reflexivity|]. split; [exact H4|]. split; [exact H2|apply periph_of_conf_fits].
+        exists (periph_of_conf pc). split; [reflexivity|]. split; [exact H4|apply periph_of_conf_fits].
     + intros i p Hp. destruct (Hback _ _ Hp) as [H1|(k & pc & h & H1 & H2 & H3 & H4 & H5 & H6)].
       * destruct (Hm1 _ _ H1) as (k & pc & H2 & H3 & H4). exists k. specialize (Hk _ _ H2). rewrite H3 in Hk.
-        rewrite Hk. subst p. reflexivity.
-      * exists k. rewrite H4. subst p i. specialize (Hk _ _ H1). rewrite H2, H3 in Hk.
-        destruct Hk as (h' & E1 & E2 & _). rewrite H4 in E1. inversion E1; subst h'.
-        cbn [pe_addr periph_of_conf periph_new]. rewrite <- E2. destruct h; reflexivity.
+        eexists. split; [exact Hk|reflexivity].
+      * exists k, h. split; [exact H4|exact H5].
+    + intros k _. reflexivity.
   - constructor.
     + intros i p Hp. destruct (Hall _ _ Hp) as (k & pc & _ & ->). unfold periph_of_conf. cbn [pe_addr pe_opts periph_new].
       apply inv_init. pose proof (co_retry _ Hc). lia.
@@ -982,9 +1011,12 @@ Proof. intros [sl ow op gc cy ev] H. cbn in H. subst ev. reflexivity. Qed.
 Lemma set_m_id : forall s, set_m s (sy_m s) = s.
 Proof. intros [c m h sl]. reflexivity. Qed.
 
-Lemma auto_take_cb : forall c s i, sy_conf s = c -> cf_autotake c = true -> is_callback i = true ->
+Lemma auto_take_cb : forall s i, cf_autotake (sy_conf s) = true -> is_callback i = true ->
   auto_take s i = (set_m s (set_events (sy_m s) events_default), Some (dm_events (sy_m s))).
-Proof. intros c s i Hc Ha Hi. unfold auto_take. rewrite Hc, Ha, Hi. reflexivity. Qed.
+Proof. intros s i Ha Hi. unfold auto_take. rewrite Ha, Hi. reflexivity. Qed.
+
+Lemma sinv_auto : forall c s, SInv c s -> cf_autotake c = true -> cf_autotake (sy_conf s) = true.
+Proof. intros c s I H. destruct (si_conf _ _ I) as (_ & _ & E & _). rewrite <- E. exact H. Qed.
 
 Lemma auto_take_other : forall s i, is_callback i = false -> auto_take s i = (s, None).
 Proof. intros s i Hi. unfold auto_take. rewrite Hi, Bool.andb_false_r. reflexivity. Qed.
@@ -995,9 +1027,10 @@ Lemma step_tx : forall c s now hp s' t,
     s' = set_m s (set_events m1 events_default) /\
     t = mkStep (InTx now hp) false (OutTx o) (Some (dm_events m1)) (observe s') (dm_op m1).
 Proof.
-  intros c s now hp s' t I Ha H. unfold model_step in H. cbn [run_in] in H. rewrite (si_conf _ _ I) in H.
+  intros c s now hp s' t I Ha H. unfold model_step in H. cbn [run_in] in H.
+  destruct (si_conf _ _ I) as (E1 & E2 & _). rewrite <- E1, <- E2 in H.
   destruct (dp_transmit (cf_params c) (cf_bufsize c) (sy_m s) now hp) as [[m1 o]| |]; cbn [bind] in H; try discriminate H.
-  rewrite (auto_take_cb c) in H; [|destruct s; exact (si_conf _ _ I)|exact Ha|reflexivity].
+  rewrite auto_take_cb in H; [|destruct s; exact (sinv_auto _ _ I Ha)|reflexivity].
   cbn [fst snd taken_of] in H. inversion H; subst s' t. exists m1, o. split; [reflexivity|].
   destruct s; split; reflexivity.
 Qed.
@@ -1013,7 +1046,7 @@ Proof.
     try (inversion H; subst t; discriminate Hb).
   destruct (Nat.eqb_spec n (length wire)) as [->|Hne]; [|cbn [bind] in H; inversion H; subst t; discriminate Hb].
   destruct (dp_receive_reply (sy_m s) addr tt) as [m1| |] eqn:Hr; cbn [bind] in H; try discriminate H.
-  rewrite (auto_take_cb c) in H; [|destruct s; exact (si_conf _ _ I)|exact Ha|reflexivity].
+  rewrite auto_take_cb in H; [|destruct s; exact (sinv_auto _ _ I Ha)|reflexivity].
   cbn [fst snd taken_of] in H. inversion H; subst s' t. exists tt, m1. split; [reflexivity|]. split; [exact Hr|].
   destruct s; split; reflexivity.
 Qed.
@@ -1023,7 +1056,7 @@ Lemma step_to : forall c s now addr s' t,
   s' = s /\ t = mkStep (InTo now addr) false OutUnit (Some events_default) (observe s) (dm_op (sy_m s)).
 Proof.
   intros c s now addr s' t I Ha H. unfold model_step in H. cbn [run_in dp_handle_timeout bind] in H.
-  rewrite (auto_take_cb c) in H; [|destruct s; exact (si_conf _ _ I)|exact Ha|reflexivity].
+  rewrite auto_take_cb in H; [|destruct s; exact (sinv_auto _ _ I Ha)|reflexivity].
   cbn [fst snd taken_of] in H. rewrite set_m_id in H. rewrite (set_events_default_id _ (si_events _ _ I)) in H.
   rewrite set_m_id in H. rewrite (si_events _ _ I) in H. inversion H; subst. split; reflexivity.
 Qed.
@@ -1184,26 +1217,70 @@ Proof.
     + apply (IH a k h Hk Ha Hu').
 Qed.
 
+(* the handles with the station addresses in force (what DpOracle.c14_step_ra keeps in g14_handles) *)
+Fixpoint cur_hs (ps : list pconf) (hs : list (option handle)) : list (option handle) :=
+  match ps, hs with
+  | p :: ps', Some h :: hs' => Some (mkHandle (hd_index h) (pc_addr p)) :: cur_hs ps' hs'
+  | _ :: ps', None :: hs' => None :: cur_hs ps' hs'
+  | _, _ => []
+  end.
+
+Lemma cur_hs_nth : forall ps hs k, length hs = length ps ->
+  nth_error (cur_hs ps hs) k =
+  match nth_error ps k, nth_error hs k with
+  | Some p, Some (Some h) => Some (Some (mkHandle (hd_index h) (pc_addr p)))
+  | Some _, Some None => Some None
+  | _, _ => None
+  end.
+Proof.
+  induction ps as [|p ps IH]; intros [|h hs] k Hl; try discriminate Hl.
+  - destruct k; reflexivity.
+  - cbn in Hl. destruct k as [|k].
+    + destruct h; reflexivity.
+    + destruct h; cbn [cur_hs nth_error]; apply IH; lia.
+Qed.
+
+Lemma cur_hs_set_nth : forall ps hs k pc j,
+  nth_error ps k = Some pc ->
+  cur_hs ps (set_nth hs k (Some (mkHandle j (pc_addr pc)))) = set_nth (cur_hs ps hs) k (Some (mkHandle j (pc_addr pc))).
+Proof.
+  induction ps as [|p ps IH]; intros [|h hs] k pc j Hk.
+  - destruct k; discriminate Hk.
+  - destruct k; discriminate Hk.
+  - destruct k; reflexivity.
+  - destruct k as [|k].
+    + cbn in Hk. inversion Hk; subst p. destruct h; reflexivity.
+    + cbn in Hk. destruct h; cbn [set_nth cur_hs]; rewrite (IH hs k pc j Hk); reflexivity.
+Qed.
+
+Lemma cur_hs_length : forall ps hs, length hs = length ps -> length (cur_hs ps hs) = length hs.
+Proof.
+  induction ps as [|p ps IH]; intros [|h hs] Hl; try discriminate Hl; [reflexivity|].
+  cbn in Hl. destruct h; cbn; rewrite IH by lia; reflexivity.
+Qed.
+
 Section Lookups.
 Variable c : conf.
 Hypothesis Hc : conf_ok c.
 
 Lemma slot_handle : forall s i p, SInv c s -> slot (sy_m s) i = Some p ->
-  exists k pc, nth_error (sy_handles s) k = Some (Some (mkHandle i (pe_addr p))) /\
-               nth_error (cf_periphs c) k = Some pc /\ fits pc p.
+  exists k h pc, nth_error (sy_handles s) k = Some (Some h) /\ hd_index h = i /\
+                 nth_error (cf_periphs c) k = Some pc /\ fits pc p.
 Proof.
-  intros s i p I Hs. destruct (si_s _ _ I _ _ Hs) as (k & Hk).
-  destruct (si_h _ _ I _ _ Hk) as (pc & p' & Hpc & Hs' & _ & Hf). cbn [hd_index] in Hs'.
-  rewrite Hs in Hs'. inversion Hs'; subst p'. exists k, pc. auto.
+  intros s i p I Hs. destruct (si_s _ _ I _ _ Hs) as (k & h & Hk & Hi).
+  destruct (si_h _ _ I _ _ Hk) as (pc & p' & Hpc & Hs' & Hf). rewrite Hi in Hs'.
+  rewrite Hs in Hs'. inversion Hs'; subst p'. exists k, h, pc. auto.
 Qed.
 
-Lemma handle_addr_unique : forall s k k' h h', SInv c s ->
+(* two handles of the same slot are the same handle *)
+Lemma handle_index_unique : forall s k k' h h', SInv c s ->
   nth_error (sy_handles s) k = Some (Some h) -> nth_error (sy_handles s) k' = Some (Some h') ->
-  hd_addr h = hd_addr h' -> k = k'.
+  hd_index h = hd_index h' -> k = k'.
 Proof.
   intros s k k' h h' I Hk Hk' E.
-  destruct (si_h _ _ I _ _ Hk) as (pc & p & Hpc & _ & Ha & _).
-  destruct (si_h _ _ I _ _ Hk') as (pc' & p' & Hpc' & _ & Ha' & _).
+  destruct (si_h _ _ I _ _ Hk) as (pc & p & Hpc & Hs & (F1 & _)).
+  destruct (si_h _ _ I _ _ Hk') as (pc' & p' & Hpc' & Hs' & (F1' & _)).
+  rewrite E in Hs. rewrite Hs in Hs'. inversion Hs'; subst p'.
   apply (conf_addr_inj c k k' pc pc' (co_sane _ Hc) Hpc Hpc'). congruence.
 Qed.
 
@@ -1211,27 +1288,34 @@ Lemma slot_addr_inj : forall s i j p q, SInv c s ->
   slot (sy_m s) i = Some p -> slot (sy_m s) j = Some q -> pe_addr p = pe_addr q -> i = j.
 Proof.
   intros s i j p q I Hi Hj E.
-  destruct (si_s _ _ I _ _ Hi) as (k & Hk). destruct (si_s _ _ I _ _ Hj) as (k' & Hk').
-  assert (Ek : k = k') by (apply (handle_addr_unique s k k' _ _ I Hk Hk'); exact E). subst k'.
-  rewrite Hk in Hk'. inversion Hk'. reflexivity.
+  destruct (slot_handle _ _ _ I Hi) as (k & h & pc & Hk & Hhi & Hpc & (F1 & _)).
+  destruct (slot_handle _ _ _ I Hj) as (k' & h' & pc' & Hk' & Hhi' & Hpc' & (F1' & _)).
+  assert (Ek : k = k') by (apply (conf_addr_inj c k k' pc pc' (co_sane _ Hc) Hpc Hpc'); congruence). subst k'.
+  rewrite Hk in Hk'. inversion Hk'; subst h'. congruence.
 Qed.
 
 Lemma slot_index_of_addr : forall s i p, SInv c s -> slot (sy_m s) i = Some p ->
-  index_of_addr (sy_handles s) (pe_addr p) = Some i.
+  index_of_addr (cur_hs (cf_periphs c) (sy_handles s)) (pe_addr p) = Some i.
 Proof.
-  intros s i p I Hs. destruct (si_s _ _ I _ _ Hs) as (k & Hk).
-  change i with (hd_index (mkHandle i (pe_addr p))).
-  apply (index_of_addr_spec _ _ k _ Hk); [reflexivity|].
-  intros k' h' Hk' Ha. symmetry. apply (handle_addr_unique s k k' _ _ I Hk Hk'). cbn. congruence.
+  intros s i p I Hs. destruct (slot_handle _ _ _ I Hs) as (k & h & pc & Hk & Hhi & Hpc & (F1 & _)).
+  pose proof (si_len _ _ I) as Hl.
+  assert (Hck : nth_error (cur_hs (cf_periphs c) (sy_handles s)) k = Some (Some (mkHandle (hd_index h) (pc_addr pc))))
+    by (rewrite (cur_hs_nth _ _ _ Hl), Hpc, Hk; reflexivity).
+  rewrite <- Hhi. change (hd_index h) with (hd_index (mkHandle (hd_index h) (pc_addr pc))).
+  apply (index_of_addr_spec _ _ k _ Hck); [cbn; congruence|].
+  intros k' h' Hk' Ha. rewrite (cur_hs_nth _ _ _ Hl) in Hk'.
+  destruct (nth_error (cf_periphs c) k') as [pc'|] eqn:Epc'; [|discriminate Hk'].
+  destruct (nth_error (sy_handles s) k') as [[h0|]|]; try discriminate Hk'. inversion Hk'; subst h'. cbn in Ha.
+  apply (conf_addr_inj c k' k pc' pc (co_sane _ Hc) Epc' Hpc). congruence.
 Qed.
 
 Lemma slot_pconf : forall s i p, SInv c s -> slot (sy_m s) i = Some p ->
-  exists k pc, pconf_of_addr c (pe_addr p) = Some (k, pc) /\ nth_error (cf_periphs c) k = Some pc /\ fits pc p /\
-               nth_error (sy_handles s) k = Some (Some (mkHandle i (pe_addr p))).
+  exists k pc h, pconf_of_addr c (pe_addr p) = Some (k, pc) /\ nth_error (cf_periphs c) k = Some pc /\ fits pc p /\
+               nth_error (sy_handles s) k = Some (Some h) /\ hd_index h = i.
 Proof.
-  intros s i p I Hs. destruct (slot_handle _ _ _ I Hs) as (k & pc & Hk & Hpc & Hf).
-  exists k, pc. pose proof Hf as (Ha & _). rewrite Ha.
-  split; [apply pconf_of_addr_spec; [exact (co_sane _ Hc)|exact Hpc]|]. rewrite <- Ha. auto.
+  intros s i p I Hs. destruct (slot_handle _ _ _ I Hs) as (k & h & pc & Hk & Hhi & Hpc & Hf).
+  exists k, pc, h. pose proof Hf as (Ha & _). rewrite Ha.
+  split; [apply pconf_of_addr_spec; [exact (co_sane _ Hc)|exact Hpc]|]. auto.
 Qed.
 
 (* observables *)
@@ -1264,7 +1348,6 @@ Definition head_ok (own : Z) (hs : list (option handle)) (pend : option Z) (t : 
   end /\
   match ts_in t with
   | InAdd k => nth_error hs k = Some None /\ pend = None
-  | InResetAddr _ _ => False                       (* histories without reset_address: see no_reset *)
   | _ => True
   end.
 
@@ -1280,15 +1363,11 @@ Definition hs_next (hs : list (option handle)) (t : tstep) : list (option handle
 
 Lemma heads : forall own hs pend t r,
   contract_from own pend (t :: r) = true -> driver_from hs pend (t :: r) = true -> view_of t <> VCrash ->
-  has_reset (t :: r) = false ->
-  has_reset r = false /\
   head_ok own hs pend t /\
   contract_from own (pend_next_v pend (view_of t)) r = true /\
   driver_from (hs_next hs t) (pend_next_v pend (view_of t)) r = true.
 Proof.
-  intros own hs pend t r Hc Hd Hv Hnr. cbn [contract_from driver_from] in Hc, Hd.
-  unfold has_reset in Hnr. cbn [existsb] in Hnr. apply orb_false_iff in Hnr. destruct Hnr as [Hnr1 Hnr2].
-  split; [exact Hnr2|].
+  intros own hs pend t r Hc Hd Hv. cbn [contract_from driver_from] in Hc, Hd.
   destruct (ts_raw t); [discriminate Hc|].
   destruct (is_bad (ts_out t)) eqn:Hb; [discriminate Hd|].
   unfold head_ok, hs_next. rewrite Hb.
@@ -1308,7 +1387,7 @@ Proof.
     - destruct pend as [d|]; [|discriminate Hc]. split; [discriminate|exact Hc].
     - auto. }
   destruct Hview as [Hv1 Hv2]. split; [split; [reflexivity|split; [exact Hv1|]]|split; [exact Hv2|]].
-  - destruct (ts_in t); try exact Logic.I; [|discriminate Hnr1].
+  - destruct (ts_in t); try exact Logic.I.
     destruct (nth_error hs k) as [[h|]|]; try discriminate Hd. destruct pend; [discriminate Hd|]. auto.
   - destruct (ts_in t) eqn:Ei; try exact Hd.
     destruct (nth_error hs k) as [[h|]|]; try discriminate Hd. destruct pend as [d|]; [discriminate Hd|].
@@ -1366,41 +1445,6 @@ Proof.
     apply orb_false_iff. split; [destruct i; try reflexivity; discriminate H1|].
     apply (IH _ _ _ Hr H2).
 Qed.
-
-(* ------------------------------------------------------------------ the generic induction *)
-
-Section Generic.
-Variable c : conf.
-Variable St : Type.
-Variable ostep : St -> nat -> tstep -> St + Z.
-Variable R : sys -> gmap -> option Z -> St -> Prop.
-
-Hypothesis Hstep : forall s gs pend g i t s' n,
-  R s gs pend g -> model_step s i = Ok (s', t) ->
-  head_ok (p_address (cf_params c)) (sy_handles s) pend t ->
-  exists gs' g', ostep g n t = inl g' /\ R s' gs' (pend_next_v pend (view_of t)) g' /\
-                 sy_handles s' = hs_next (sy_handles s) t.
-
-Lemma sound_generic : forall ins s gs pend g s' tr n,
-  R s gs pend g -> model_run s ins = Ok (s', tr) ->
-  contract_from (p_address (cf_params c)) pend tr = true -> driver_from (sy_handles s) pend tr = true ->
-  has_reset tr = false ->
-  run_monitor ostep g n tr = None.
-Proof.
-  induction ins as [|i ins IH]; intros s gs pend g s' tr n HR Hrun Hct Hdr Hnr; cbn [model_run] in Hrun.
-  - inversion Hrun; subst. reflexivity.
-  - destruct (model_step s i) as [[s1 t]| |] eqn:Hs; cbn [bind] in Hrun; try discriminate Hrun.
-    destruct (model_run s1 ins) as [[s2 tr1]| |] eqn:Hr; cbn [bind] in Hrun; try discriminate Hrun.
-    inversion Hrun; subst s' tr. clear Hrun.
-    assert (Hb : is_bad (ts_out t) = false).
-    { cbn [driver_from] in Hdr. destruct (is_bad (ts_out t)); [discriminate Hdr|reflexivity]. }
-    pose proof (model_view_not_crash _ _ _ _ Hs Hb) as Hv.
-    destruct (heads _ _ _ _ _ Hct Hdr Hv Hnr) as (Hnr' & Hh & Hct' & Hdr').
-    destruct (Hstep _ _ _ _ _ _ _ n HR Hs Hh) as (gs' & g' & Ho & HR' & Hhs).
-    cbn [run_monitor]. rewrite Ho. rewrite <- Hhs in Hdr'. apply (IH _ _ _ _ _ _ _ HR' Hr Hct' Hdr' Hnr').
-Qed.
-
-End Generic.
 
 (* ------------------------------------------------------------------ monitor states per station address *)
 
@@ -1916,7 +1960,7 @@ Inductive Trans (s : sys) (gs : gmap) (pend : option Z) (t : tstep) (s' : sys) (
 | TUser : forall i k p p',
     view_of t = VOther -> step_event t = None ->
     slot (sy_m s) i = Some p -> slot (sy_m s') i = Some p' -> same_ctrl p p' -> gs' = gs ->
-    nth_error (sy_handles s) k = Some (Some (mkHandle i (pe_addr p))) ->
+    (exists h, nth_error (sy_handles s) k = Some (Some h) /\ hd_index h = i) ->
     (ts_in t = InReqDiag k /\ pe_pi_q p' = pe_pi_q p \/ exists q, ts_in t = InWriteQ k q /\ pe_pi_q p' = q) ->
     others_quiet (sy_m s) gs (sy_m s') gs' i ->
     Trans s gs pend t s' gs'
@@ -2027,9 +2071,6 @@ Proof.
   intros s gs pend k h p p' i0 o [I G] Hh Hsl Hsc Hin m1 t Ho.
   assert (Hk : nth_error (sy_handles s) k = Some (Some h)).
   { unfold handle_of in Hh. destruct (nth_error (sy_handles s) k) as [[h0|]|]; inversion Hh; reflexivity. }
-  destruct (si_h _ _ I _ _ Hk) as (pc & p0 & Hpc & Hs0 & Ha & (F1 & _)). rewrite Hsl in Hs0. inversion Hs0; subst p0.
-  assert (Hhd : h = mkHandle (hd_index h) (pe_addr p)).
-  { destruct h as [hi ha]. cbn in *. congruence. }
   assert (Hupd : user_upd (sy_m s) m1) by (exists (hd_index h), p, p'; auto).
   assert (Hv : view_of t = VOther) by (destruct Hin as [(-> & _)|(q & -> & _)]; reflexivity).
   assert (Hslots : forall j, slot m1 j = if Nat.eqb j (hd_index h) then Some p' else slot (sy_m s) j).
@@ -2050,7 +2091,7 @@ Proof.
   split; [destruct Hin as [(-> & _)|(q & -> & _)]; reflexivity|].
   apply (TUser s gs pend t _ gs (hd_index h) k p p'); cbn [sy_m set_m]; auto.
   - rewrite Hslots, Nat.eqb_refl. reflexivity.
-  - rewrite <- Hhd. exact Hk.
+  - exists h. split; [exact Hk|reflexivity].
   - split.
     + intros j q Hne Hq. exists q. rewrite Hslots. destruct (Nat.eqb_spec j (hd_index h)); [contradiction|].
       split; [exact Hq|apply quiet_refl].
@@ -2086,14 +2127,14 @@ Qed.
 
 Lemma model_trans : forall s gs pend i t s',
   Base s gs pend -> model_step s i = Ok (s', t) ->
-  head_ok (p_address (cf_params c)) (sy_handles s) pend t ->
+  head_ok (p_address (cf_params c)) (sy_handles s) pend t -> is_reset_in i = false ->
   exists gs',
     Base s' gs' (pend_next_v pend (view_of t)) /\ sy_handles s' = hs_next (sy_handles s) t /\
     ts_in t = i /\ ts_obs t = observe s' /\ ts_op t = dm_op (sy_m s') /\
     (match i with InEnter _ => True | _ => dm_op (sy_m s') = dm_op (sy_m s) end) /\
     Trans s gs pend t s' gs'.
 Proof.
-  intros s gs pend i t s' [I G] Hstep Hhead.
+  intros s gs pend i t s' [I G] Hstep Hhead Hnreset.
   pose proof (co_auto _ Hc) as Hauto. pose proof (co_retry _ Hc) as Hmax.
   pose proof Hhead as (Hbad & Hview & Hadd).
   destruct i as [now hp|now addr wire|now addr| |k|k q|st| |k|k wire|k|k si rd sd dp f1 f2 ext ident| |k a].
@@ -2166,7 +2207,7 @@ Proof.
         destruct Hvis as (w & q & -> & Henc & Hev & Hcur & Hq).
         destruct (Hslots _ _ Hq) as (q' & Hq' & Hpost). cbn [slot_post] in Hpost. rewrite Nat.eqb_refl in Hpost.
         destruct Hpost as (q1 & g1 & HQ & I1 & Hp & Hg' & Hreq).
-        destruct (slot_handle c s i q I Hq) as (k & pc & _ & Hpc & Hfit).
+        destruct (slot_handle c s i q I Hq) as (k & hq & pc & _ & _ & Hpc & Hfit).
         assert (Hfit1 : fits pc q1).
         { destruct Hfit as (F1 & F2 & F3 & F4). destruct HQ. unfold fits. repeat split; congruence. }
         destruct (req_wire c pc _ _ _ _ _ _ _ (co_limits _ Hc) (co_own _ Hc) (ex_intro _ k Hpc) Hfit1 Hp Henc)
@@ -2290,14 +2331,14 @@ Proof.
     apply all_quiet_refl. reflexivity.
   - (* add *)
     destruct (step_add s k s' t Hstep Hbad) as (pc & m1 & h & Hpc & Hdadd & -> & ->).
-    rewrite (si_conf _ _ I) in Hpc. cbn [ts_in] in Hadd. destruct Hadd as (Hnone & ->).
+    cbn [ts_in] in Hadd. destruct Hadd as (Hnone & ->). rewrite (si_late _ _ I _ Hnone) in Hpc.
     cbn [sy_m sy_handles ts_in ts_obs ts_op view_of pend_next_v ts_out hs_next].
     destruct (dp_add_post _ _ _ _ Hdadd) as (Hfree & Hnew & Hoth & Hadr & A1 & A2 & A3 & A4 & A5).
     assert (Hh : h = mkHandle (hd_index h) (pc_addr pc)).
     { destruct h as [hi ha]. cbn in Hadr |- *. rewrite Hadr. reflexivity. }
     assert (Hklt : (k < length (sy_handles s))%nat) by (apply nth_error_Some; rewrite Hnone; discriminate).
     assert (Hfresh : forall j q0, slot (sy_m s) j = Some q0 -> pe_addr q0 <> pc_addr pc).
-    { intros j q0 Hq0 E. destruct (slot_handle c s j q0 I Hq0) as (k' & pc' & Hk' & Hpc' & (F1 & _)).
+    { intros j q0 Hq0 E. destruct (slot_handle c s j q0 I Hq0) as (k' & h' & pc' & Hk' & _ & Hpc' & (F1 & _)).
       assert (Ek : k' = k) by (apply (conf_addr_inj c k' k pc' pc (co_sane _ Hc) Hpc' Hpc); congruence).
       subst k'. rewrite Hnone in Hk'. discriminate Hk'. }
     exists (gupd gs (hd_index h) ghost0). split.
@@ -2308,16 +2349,18 @@ Proof.
         + rewrite A2. exact (si_events _ _ I).
         + intros k' h' Hk'. destruct (Nat.eq_dec k' k) as [->|Hne].
           * rewrite set_nth_same in Hk' by exact Hklt. inversion Hk'; subst h'.
-            exists pc, (periph_of_conf pc). split; [exact Hpc|]. split; [exact Hnew|]. split; [exact Hadr|apply periph_of_conf_fits].
+            exists pc, (periph_of_conf pc). split; [exact Hpc|]. split; [exact Hnew|apply periph_of_conf_fits].
           * rewrite set_nth_other in Hk' by exact Hne.
-            destruct (si_h _ _ I _ _ Hk') as (pc' & p' & H1 & H2 & H3 & H4). exists pc', p'.
-            split; [exact H1|]. split; [|split; assumption].
+            destruct (si_h _ _ I _ _ Hk') as (pc' & p' & H1 & H2 & H4). exists pc', p'.
+            split; [exact H1|]. split; [|assumption].
             rewrite Hoth; [exact H2|]. intro E. rewrite E in H2. rewrite Hfree in H2. discriminate H2.
         + intros j p Hp. destruct (Nat.eq_dec j (hd_index h)) as [->|Hne].
-          * rewrite Hnew in Hp. inversion Hp; subst p. exists k. rewrite set_nth_same by exact Hklt.
-            cbn [pe_addr periph_of_conf periph_new]. rewrite <- Hh. reflexivity.
-          * rewrite Hoth in Hp by exact Hne. destruct (si_s _ _ I _ _ Hp) as (k' & Hk'). exists k'.
-            rewrite set_nth_other; [exact Hk'|]. intro E; subst k'. rewrite Hnone in Hk'. discriminate Hk'.
+          * rewrite Hnew in Hp. inversion Hp; subst p. exists k, h. rewrite set_nth_same by exact Hklt. auto.
+          * rewrite Hoth in Hp by exact Hne. destruct (si_s _ _ I _ _ Hp) as (k' & h' & Hk' & Hi'). exists k', h'.
+            split; [|exact Hi']. rewrite set_nth_other; [exact Hk'|]. intro E; subst k'. rewrite Hnone in Hk'. discriminate Hk'.
+        + intros k' Hk'. destruct (Nat.eq_dec k' k) as [->|Hne].
+          * rewrite set_nth_same in Hk' by exact Hklt. discriminate Hk'.
+          * rewrite set_nth_other in Hk' by exact Hne. apply (si_late _ _ I). exact Hk'.
       - unfold periph_of_conf in Hdadd. assert (H0 : 0 <= p_max_retry (cf_params c)) by lia.
         apply (add_ghost (cf_params c) _ _ _ _ _ _ _ _ _ H0 Hdadd G). }
     split; [reflexivity|]. split; [reflexivity|]. split; [reflexivity|]. split; [reflexivity|]. split; [exact A1|].
@@ -2335,8 +2378,8 @@ Proof.
   - destruct (step_env s InClean s' t eq_refl Hstep) as (Hcf & Hm & Hh & o & -> & Ho).
     apply (env_trans s gs pend s' InClean o (conj I G) Hcf Hm Hh Logic.I).
     destruct o; try contradiction; reflexivity.
-  - (* reset_address: excluded (no_reset) *)
-    exfalso. destruct (model_out_shape _ _ _ _ Hstep) as (E & _). rewrite E in Hadd. exact Hadd.
+  - (* reset_address: handled separately *)
+    discriminate Hnreset.
 Qed.
 
 End Step.
@@ -2404,12 +2447,12 @@ Definition Rel8 (s : sys) (gs : gmap) (pend : option Z) (g : c08g) : Prop :=
 
 Lemma c08_sound_step : forall s gs pend g i t s' n,
   Rel8 s gs pend g -> model_step s i = Ok (s', t) ->
-  head_ok (p_address (cf_params c)) (sy_handles s) pend t ->
+  head_ok (p_address (cf_params c)) (sy_handles s) pend t -> is_reset_in i = false ->
   exists gs' g', c08_step (Z.to_nat (p_max_retry (cf_params c))) g n t = inl g' /\
                  Rel8 s' gs' (pend_next_v pend (view_of t)) g' /\ sy_handles s' = hs_next (sy_handles s) t.
 Proof.
-  intros s gs pend g i t s' n (HB & Hper & Hpl) Hstep Hhead.
-  destruct (model_trans c Hc s gs pend i t s' HB Hstep Hhead) as (gs' & HB' & Hhs & _ & _ & _ & _ & HT).
+  intros s gs pend g i t s' n (HB & Hper & Hpl) Hstep Hhead Hnri.
+  destruct (model_trans c Hc s gs pend i t s' HB Hstep Hhead Hnri) as (gs' & HB' & Hhs & _ & _ & _ & _ & HT).
   pose proof HB as [I G]. pose proof HB' as [I' G'].
   pose proof (sinv_addr_inj c s Hc I) as Hinj. pose proof (sinv_addr_inj c s' Hc I') as Hinj'.
   pose proof (co_retry _ Hc) as Hmax.
@@ -2552,23 +2595,6 @@ Proof.
     split; [exact HB'|]. cbn [g8_per g8_pending]. split; [|exact Logic.I].
     rewrite Hg'. apply (per_ok_add _ _ _ (sy_m s) gs per (sy_m s') j (periph_of_conf pc)); auto.
     unfold periph_of_conf. apply R8_init.
-Qed.
-
-Theorem c08_oracle_sound : forall s0 ins s' tr,
-  init_sys c = Ok s0 -> no_reset ins = true -> model_run s0 ins = Ok (s', tr) ->
-  contract_ok c tr = true -> driver_ok (sy_handles s0) tr = true ->
-  c08_monitor c tr = None.
-Proof.
-  intros s0 ins s' tr Hinit Hnr Hrun Hct Hdr.
-  pose proof (model_run_no_reset _ _ _ _ Hrun Hnr) as Hnr'.
-  destruct (init_invariants c s0 Hc Hinit) as (I0 & G0 & _ & _ & Hfresh).
-  unfold c08_monitor.
-  apply (sound_generic c c08g (c08_step (Z.to_nat (p_max_retry (cf_params c)))) Rel8 c08_sound_step
-           ins s0 (fun _ => ghost0) None (mkC08g [] None) s' tr 0%nat); auto.
-  split; [split; assumption|]. cbn [g8_per g8_pending]. split; [|exact Logic.I].
-  split.
-  - intros i p Hp. destruct (Hfresh _ _ Hp) as (k & pc & _ & ->). cbn. unfold periph_of_conf. apply R8_init.
-  - intros a _. reflexivity.
 Qed.
 
 End C08.
@@ -2723,12 +2749,12 @@ Proof. intros q g q' g' x HQ H. unfold R3 in *. rewrite (qu_text _ _ _ _ HQ). ex
 
 Lemma c03_sound_step : forall s gs pend g i t s' n,
   Rel3 s gs pend g -> model_step s i = Ok (s', t) ->
-  head_ok (p_address (cf_params c)) (sy_handles s) pend t ->
+  head_ok (p_address (cf_params c)) (sy_handles s) pend t -> is_reset_in i = false ->
   exists gs' g', c03_step c g n t = inl g' /\
                  Rel3 s' gs' (pend_next_v pend (view_of t)) g' /\ sy_handles s' = hs_next (sy_handles s) t.
 Proof.
-  intros s gs pend g i t s' n (HB & Hper & Hpl) Hstep Hhead.
-  destruct (model_trans c Hc s gs pend i t s' HB Hstep Hhead) as (gs' & HB' & Hhs & _ & _ & _ & _ & HT).
+  intros s gs pend g i t s' n (HB & Hper & Hpl) Hstep Hhead Hnri.
+  destruct (model_trans c Hc s gs pend i t s' HB Hstep Hhead Hnri) as (gs' & HB' & Hhs & _ & _ & _ & _ & HT).
   pose proof HB as [I G]. pose proof HB' as [I' G'].
   pose proof (sinv_addr_inj c s Hc I) as Hinj. pose proof (sinv_addr_inj c s' Hc I') as Hinj'.
   exists gs'. rewrite c03_step_eq. destruct g as [per pendg]. cbn [g3_per g3_pending] in *.
@@ -2758,7 +2784,7 @@ Proof.
   - (* a request *)
     subst pend. pose proof (pend_link_none _ _ _ Hpl) as ->.
     rewrite Hev. rewrite Hv in *. cbn [pend_next_v].
-    destruct (slot_pconf c Hc s j q I Hsl) as (k & pc & Hpca & Hpc & (F1 & F2 & _) & _).
+    destruct (slot_pconf c Hc s j q I Hsl) as (k & pc & hq & Hpca & Hpc & (F1 & F2 & _) & _).
     assert (Hget : alist_get PhNeedDiag per (h_da h) = gh_text g1).
     { rewrite Hda, (qu_text _ _ _ _ HQ). apply (proj1 Hper). exact Hsl. }
     rewrite <- Hda in Hpca.
@@ -2862,23 +2888,6 @@ Proof.
     split; [exact HB'|]. cbn [g3_per g3_pending]. split; [|exact Logic.I].
     rewrite Hg'. apply (per_ok_add _ _ _ (sy_m s) gs per (sy_m s') j (periph_of_conf pc)); auto.
     reflexivity.
-Qed.
-
-Theorem c03_oracle_sound : forall s0 ins s' tr,
-  init_sys c = Ok s0 -> no_reset ins = true -> model_run s0 ins = Ok (s', tr) ->
-  contract_ok c tr = true -> driver_ok (sy_handles s0) tr = true ->
-  c03_monitor c tr = None.
-Proof.
-  intros s0 ins s' tr Hinit Hnr Hrun Hct Hdr.
-  pose proof (model_run_no_reset _ _ _ _ Hrun Hnr) as Hnr'.
-  destruct (init_invariants c s0 Hc Hinit) as (I0 & G0 & _ & _ & Hfresh).
-  unfold c03_monitor.
-  apply (sound_generic c c03g (c03_step c) Rel3 c03_sound_step
-           ins s0 (fun _ => ghost0) None (mkC03g [] None) s' tr 0%nat); auto.
-  split; [split; assumption|]. cbn [g3_per g3_pending]. split; [|exact Logic.I].
-  split.
-  - intros i p Hp. reflexivity.
-  - intros a _. reflexivity.
 Qed.
 
 End C03.
@@ -3063,15 +3072,28 @@ Definition Rel4 (s : sys) (gs : gmap) (pend : option Z) (g : c04g) : Prop :=
 Lemma obs_position : forall s n ob, SInv c s -> nth_error (observe s) n = Some ob ->
   (ob = None) \/
   exists h p pc, nth_error (sy_handles s) n = Some (Some h) /\ slot (sy_m s) (hd_index h) = Some p /\
-                 ob = Some (observe_periph p) /\ nth_error (cf_periphs c) n = Some pc /\ fits pc p /\ hd_addr h = pe_addr p.
+                 ob = Some (observe_periph p) /\ nth_error (cf_periphs c) n = Some pc /\ fits pc p.
 Proof.
   intros s n ob I H. unfold observe in H. rewrite nth_error_map in H.
   destruct (nth_error (sy_handles s) n) as [[h|]|] eqn:Hn; cbn [option_map] in H; try discriminate H.
-  - destruct (si_h _ _ I _ _ Hn) as (pc & p & Hpc & Hs & Ha & Hf). right. exists h, p, pc.
+  - destruct (si_h _ _ I _ _ Hn) as (pc & p & Hpc & Hs & Hf). right. exists h, p, pc.
     split; [reflexivity|]. split; [exact Hs|]. split.
     + unfold dp_get_mut in H. unfold slot in Hs. destruct (nth_error (dm_slots (sy_m s)) (hd_index h)) as [[q|]|]; try discriminate Hs.
       inversion Hs; subst q. inversion H; reflexivity.
-    + split; [exact Hpc|]. split; [exact Hf|]. destruct Hf as (F1 & _). congruence.
+    + split; [exact Hpc|exact Hf].
+  - left. inversion H; reflexivity.
+Qed.
+
+Lemma obs_position_gen : forall c2 s n ob, SInv c2 s -> nth_error (observe s) n = Some ob ->
+  (ob = None) \/
+  exists h p, nth_error (sy_handles s) n = Some (Some h) /\ slot (sy_m s) (hd_index h) = Some p /\ ob = Some (observe_periph p).
+Proof.
+  intros c2 s n ob I H. unfold observe in H. rewrite nth_error_map in H.
+  destruct (nth_error (sy_handles s) n) as [[h|]|] eqn:Hn; cbn [option_map] in H; try discriminate H.
+  - destruct (si_h _ _ I _ _ Hn) as (pc & p & Hpc & Hs & Hf). right. exists h, p.
+    split; [reflexivity|]. split; [exact Hs|].
+    unfold dp_get_mut in H. unfold slot in Hs. destruct (nth_error (dm_slots (sy_m s)) (hd_index h)) as [[q|]|]; try discriminate Hs.
+    inversion Hs; subst q. inversion H; reflexivity.
   - left. inversion H; reflexivity.
 Qed.
 
@@ -3087,15 +3109,15 @@ Definition images_ok (upd : option (nat * bytes)) (inp : tr_in) (s s' : sys) : P
     | _ => pe_pi_q p' = pe_pi_q p
     end.
 
-Lemma chk_images_ok : forall upd inp s s',
-  SInv c s -> SInv c s' ->
+Lemma chk_images_ok : forall c2 upd inp s s',
+  SInv c s -> SInv c2 s' ->
   (forall n h, nth_error (sy_handles s) n = Some (Some h) -> nth_error (sy_handles s') n = Some (Some h)) ->
   images_ok upd inp s s' ->
   chk_go upd inp 0%nat (observe s) (observe s') = None.
 Proof.
-  intros upd inp s s' I I' Hh Himg. apply chk_go_none. intros n ob oa Hb Ha. cbn [Nat.add].
+  intros c2 upd inp s s' I I' Hh Himg. apply chk_go_none. intros n ob oa Hb Ha. cbn [Nat.add].
   destruct (obs_position s n ob I Hb) as [->|(h & p & pc & Hn & Hs & -> & _)]; [apply img_chk_absent; left; reflexivity|].
-  destruct (obs_position s' n oa I' Ha) as [->|(h' & p' & pc' & Hn' & Hs' & -> & _)]; [apply img_chk_absent; right; reflexivity|].
+  destruct (obs_position_gen c2 s' n oa I' Ha) as [->|(h' & p' & Hn' & Hs' & ->)]; [apply img_chk_absent; right; reflexivity|].
   rewrite (Hh _ _ Hn) in Hn'. inversion Hn'; subst h'.
   destruct (Himg n h p p' Hn (Hh _ _ Hn) Hs Hs') as (H1 & H2). apply img_chk_none; assumption.
 Qed.
@@ -3166,12 +3188,12 @@ Ltac c04_close Hv Hchk Hreq4 Hevok :=
 
 Lemma c04_sound_step : forall s gs pend g i t s' n,
   Rel4 s gs pend g -> model_step s i = Ok (s', t) ->
-  head_ok (p_address (cf_params c)) (sy_handles s) pend t ->
+  head_ok (p_address (cf_params c)) (sy_handles s) pend t -> is_reset_in i = false ->
   exists gs' g', c04_step c g n t = inl g' /\
                  Rel4 s' gs' (pend_next_v pend (view_of t)) g' /\ sy_handles s' = hs_next (sy_handles s) t.
 Proof.
-  intros s gs pend g i t s' n (HB & Hobs & Hop & Hpl) Hstep Hhead.
-  destruct (model_trans c Hc s gs pend i t s' HB Hstep Hhead) as (gs' & HB' & Hhs & Hti & Hto & Htop & Hopk & HT).
+  intros s gs pend g i t s' n (HB & Hobs & Hop & Hpl) Hstep Hhead Hnri.
+  destruct (model_trans c Hc s gs pend i t s' HB Hstep Hhead Hnri) as (gs' & HB' & Hhs & Hti & Hto & Htop & Hopk & HT).
   pose proof HB as [I G]. pose proof HB' as [I' G'].
   pose proof (sinv_addr_inj c s Hc I) as Hinj. pose proof (sinv_addr_inj c s' Hc I') as Hinj'.
   exists gs'. rewrite c04_step_eq. cbn zeta. rewrite Hto, Htop.
@@ -3187,7 +3209,7 @@ Proof.
     assert (Hhh : sy_handles s' = sy_handles s).
     { apply (handles_same_of s s' t Hhs). intros k E. rewrite E in Hin. exact Hin. }
     assert (Hchk : chk_go None (ts_in t) 0%nat (g4_obs g) (observe s') = None).
-    { rewrite Hobs. apply chk_images_ok; auto.
+    { rewrite Hobs. apply (chk_images_ok c); auto.
       - intros n0 h Hn0. rewrite Hhh. exact Hn0.
       - apply images_same.
         + intros j q q' Hq0 Hq0'. destruct Hq as [Hq1 _]. destruct (Hq1 _ _ Hq0) as (q2 & Hq2 & HQ).
@@ -3217,7 +3239,7 @@ Proof.
     { apply (handles_same_of s s' t Hhs). intros k E. destruct Hin as (now & hp & Hin). rewrite Hin in E. discriminate E. }
     destruct (transmit_keeps _ _ _ _ _ Hp) as (Ka & Ki & Kq & _).
     assert (Hchk : chk_go None (ts_in t) 0%nat (g4_obs g) (observe s') = None).
-    { rewrite Hobs. apply chk_images_ok; auto.
+    { rewrite Hobs. apply (chk_images_ok c); auto.
       - intros n0 h0 Hn0. rewrite Hhh. exact Hn0.
       - apply images_same.
         + intros j0 q0 q0' Hq0 Hq0'. destruct (Nat.eq_dec j0 j) as [->|Hne].
@@ -3229,9 +3251,9 @@ Proof.
     assert (Hevok : c04_evok c t None = true) by (apply evok_none; rewrite Hev; exact Logic.I).
     assert (Hreq4 : c04_req c g (view_of t) = None).
     { rewrite Hv. unfold c04_req. destruct (classify h) eqn:Esv; try reflexivity.
-      destruct (slot_pconf c Hc s j q I Hsl) as (k & pc & Hpca & Hpc & Hfit & Hk).
+      destruct (slot_pconf c Hc s j q I Hsl) as (k & pc & hq & Hpca & Hpc & Hfit & Hk & Ehq).
       rewrite Hda, Hpca. rewrite Hobs, Hop.
-      rewrite (nth_of_nth_error _ _ _ _ None (observe_nth s k _ q Hk Hsl)).
+      rewrite <- Ehq in Hsl. rewrite (nth_of_nth_error _ _ _ _ None (observe_nth s k _ q Hk Hsl)).
       cbn [obs_pi_q observe_periph ob_pi_q].
       destruct (dx_request_only_when_ready _ _ _ _ _ _ Hp (classify_dx_sap _ Esv)) as (_ & _ & _ & ->).
       rewrite (qu_pi_q _ _ _ _ HQ). rewrite opstate_match.
@@ -3249,7 +3271,7 @@ Proof.
     { apply (handles_same_of s s' t Hhs). intros k E. destruct Hin as (now & hp & Hin). rewrite Hin in E. discriminate E. }
     destruct (transmit_keeps _ _ _ _ _ Hp) as (Ka & Ki & Kq & _).
     assert (Hchk : chk_go None (ts_in t) 0%nat (g4_obs g) (observe s') = None).
-    { rewrite Hobs. apply chk_images_ok; auto.
+    { rewrite Hobs. apply (chk_images_ok c); auto.
       - intros n0 h0 Hn0. rewrite Hhh. exact Hn0.
       - apply images_same.
         + intros j0 q0 q0' Hq0 Hq0'. destruct (Nat.eq_dec j0 j) as [->|Hne].
@@ -3274,15 +3296,13 @@ Proof.
     assert (Hhh : sy_handles s' = sy_handles s).
     { apply (handles_same_of s s' t Hhs). intros k E. rewrite Hin in E. discriminate E. }
     destruct (reply_event_iff _ _ _ _ Hp) as (Hiff & Hpi & Hpq).
-    destruct (slot_pconf c Hc s j p I Hsl) as (k' & pc & Hpca & Hpc & Hfit & Hk').
+    destruct (slot_pconf c Hc s j p I Hsl) as (k' & pc & hk' & Hpca & Hpc & Hfit & Hk' & Ehk').
     pose proof Hfit as (F1 & F2 & F3 & F4). rewrite Ha in Hpca.
     (* position n is the replying peripheral exactly when its handle points to slot j *)
     assert (Hpos : forall n0 h1, nth_error (sy_handles s) n0 = Some (Some h1) -> (hd_index h1 = j <-> n0 = k')).
     { intros n0 h1 Hn0. split.
-      - intro E. destruct (si_h _ _ I _ _ Hn0) as (pc1 & p1' & _ & Hs1 & Ha1 & (G1 & _)). rewrite E in Hs1.
-        rewrite Hsl in Hs1. inversion Hs1; subst p1'.
-        apply (handle_addr_unique c Hc s n0 k' _ _ I Hn0 Hk'). cbn. congruence.
-      - intros ->. rewrite Hk' in Hn0. inversion Hn0. reflexivity. }
+      - intro E. apply (handle_index_unique c Hc s n0 k' _ _ I Hn0 Hk'). congruence.
+      - intros ->. rewrite Hk' in Hn0. inversion Hn0. subst h1. exact Ehk'. }
     set (upd := c04_upd c (VReply a tg) (g4_pending g)).
     assert (Himg : images_ok upd (ts_in t) s s' /\
                    c04_evok c t (match upd with Some (k0, _) => Some k0 | None => c04_sc c (VReply a tg) (g4_pending g) end) = true).
@@ -3338,7 +3358,7 @@ Proof.
           * destruct (Nat.eqb (pc_in pc) 0) eqn:E0; [apply (Hgot true)|apply (Hgot false)]; rewrite Hiff, Hdxa; tauto. }
     destruct Himg as (Himg & Hevok).
     assert (Hchk : chk_go upd (ts_in t) 0%nat (g4_obs g) (observe s') = None).
-    { rewrite Hobs. apply chk_images_ok; auto. intros n0 h1 Hn0. rewrite Hhh. exact Hn0. }
+    { rewrite Hobs. apply (chk_images_ok c); auto. intros n0 h1 Hn0. rewrite Hhh. exact Hn0. }
     assert (Hvne : view_of t <> VCrash) by (rewrite Hv; discriminate).
     assert (Hupd : c04_upd c (view_of t) (g4_pending g) = upd) by (rewrite Hv; reflexivity).
     assert (Hscx : c04_sc c (view_of t) (g4_pending g) = c04_sc c (VReply a tg) (g4_pending g)) by (rewrite Hv; reflexivity).
@@ -3353,7 +3373,7 @@ Proof.
     assert (Hhh : sy_handles s' = sy_handles s).
     { apply (handles_same_of s s' t Hhs). intros k E. rewrite E in Hin. exact Hin. }
     assert (Hchk : chk_go None (ts_in t) 0%nat (g4_obs g) (observe s') = None).
-    { rewrite Hobs. apply chk_images_ok; auto.
+    { rewrite Hobs. apply (chk_images_ok c); auto.
       - intros n0 h0 Hn0. rewrite Hhh. exact Hn0.
       - apply images_same.
         + intros j0 q0 q0' Hq0 Hq0'. rewrite Hm in Hq0'. rewrite Hq0 in Hq0'. inversion Hq0'. auto.
@@ -3374,12 +3394,10 @@ Proof.
     pose proof Hsc as (Hap & _ & _ & _ & Hpi & _).
     assert (Hpos : forall n0 h1, nth_error (sy_handles s) n0 = Some (Some h1) -> (hd_index h1 = j <-> n0 = k)).
     { intros n0 h1 Hn0. split.
-      - intro E. destruct (si_h _ _ I _ _ Hn0) as (pc1 & p1' & _ & Hs1 & Ha1 & (G1 & _)). rewrite E in Hs1.
-        rewrite Hsl in Hs1. inversion Hs1; subst p1'.
-        apply (handle_addr_unique c Hc s n0 k _ _ I Hn0 Hk). cbn. congruence.
-      - intros ->. rewrite Hk in Hn0. inversion Hn0. reflexivity. }
+      - intro E. destruct Hk as (hk & Hk & Ehk). apply (handle_index_unique c Hc s n0 k _ _ I Hn0 Hk). congruence.
+      - intros ->. destruct Hk as (hk & Hk & Ehk). rewrite Hk in Hn0. inversion Hn0. subst h1. exact Ehk. }
     assert (Hchk : chk_go None (ts_in t) 0%nat (g4_obs g) (observe s') = None).
-    { rewrite Hobs. apply chk_images_ok; auto.
+    { rewrite Hobs. apply (chk_images_ok c); auto.
       - intros n0 h0 Hn0. rewrite Hhh. exact Hn0.
       - intros n0 h1 q0 q0' Hn0 _ Hq0 Hq0'.
         destruct (Nat.eq_dec (hd_index h1) j) as [E|Hne].
@@ -3407,7 +3425,7 @@ Proof.
     { intros n0 h0 Hn0. rewrite Hhs. unfold hs_next. rewrite Hin, Hout. rewrite set_nth_other; [exact Hn0|].
       intro E; subst n0. rewrite Hnone in Hn0. discriminate Hn0. }
     assert (Hchk : chk_go None (ts_in t) 0%nat (g4_obs g) (observe s') = None).
-    { rewrite Hobs. apply chk_images_ok; auto.
+    { rewrite Hobs. apply (chk_images_ok c); auto.
       apply images_same.
       - intros j0 q0 q0' Hq0 Hq0'. destruct (Nat.eq_dec j0 j) as [->|Hne]; [rewrite Hfree in Hq0; discriminate Hq0|].
         rewrite Hoth in Hq0' by exact Hne. rewrite Hq0 in Hq0'. inversion Hq0'. auto.
@@ -3418,20 +3436,6 @@ Proof.
     eexists. split; [reflexivity|]. split; [|exact Hhs].
     split; [exact HB'|]. cbn [g4_obs g4_op g4_pending c04_pending']. split; [reflexivity|]. split; [reflexivity|].
     rewrite Hpg. exact Logic.I.
-Qed.
-
-Theorem c04_oracle_sound : forall s0 ins s' tr,
-  init_sys c = Ok s0 -> no_reset ins = true -> model_run s0 ins = Ok (s', tr) ->
-  contract_ok c tr = true -> driver_ok (sy_handles s0) tr = true ->
-  c04_monitor c (observe s0) tr = None.
-Proof.
-  intros s0 ins s' tr Hinit Hnr Hrun Hct Hdr.
-  pose proof (model_run_no_reset _ _ _ _ Hrun Hnr) as Hnr'.
-  destruct (init_invariants c s0 Hc Hinit) as (I0 & G0 & Hop0 & _ & Hfresh).
-  unfold c04_monitor.
-  apply (sound_generic c c04g (c04_step c) Rel4 c04_sound_step
-           ins s0 (fun _ => ghost0) None (mkC04g (observe s0) OpStop None) s' tr 0%nat); auto.
-  split; [split; assumption|]. cbn [g4_obs g4_op g4_pending]. split; [reflexivity|]. split; [symmetry; exact Hop0|exact Logic.I].
 Qed.
 
 End C04.
@@ -3873,12 +3877,15 @@ Proof.
   apply Z.eqb_eq in E. subst x. exact Hx.
 Qed.
 
+(* the handles as the monitor knows them: slot index from the master, station address in force *)
+Definition chs (c : conf) (s : sys) : list (option handle) := cur_hs (cf_periphs c) (sy_handles s).
+
 Section C14.
 Variable c : conf.
 Hypothesis Hc : conf_ok c.
 
 Definition Rel14 (s : sys) (gs : gmap) (pend : option Z) (g : c14g) : Prop :=
-  Base c s gs pend /\ g14_handles g = sy_handles s /\ Ccomp (sy_m s) /\
+  Base c s gs pend /\ g14_handles g = chs c s /\ Ccomp (sy_m s) /\
   per_ok lstate LOff RL (sy_m s) gs (g14_life g) /\
   (forall da, pend = Some da -> g14_cur g = Some da) /\
   (g14_dirty g = false ->
@@ -3886,7 +3893,7 @@ Definition Rel14 (s : sys) (gs : gmap) (pend : option Z) (g : c14g) : Prop :=
 
 (* the last part of c14_step: consistency of the observables, completed cycle *)
 Lemma c14_tail : forall s' gs' pend' (g : c14g) life' hs' turns2 cur1 sends1 dirty' t rem',
-  Base c s' gs' pend' -> hs' = sy_handles s' -> Ccomp (sy_m s') ->
+  Base c s' gs' pend' -> hs' = chs c s' -> Ccomp (sy_m s') ->
   per_ok lstate LOff RL (sy_m s') gs' life' ->
   ts_obs t = observe s' ->
   (forall da, pend' = Some da -> cur1 = Some da) ->
@@ -3906,7 +3913,7 @@ Proof.
   pose proof HB as [I G].
   assert (Hcons : c14_consistent life' (cf_periphs c) (ts_obs t) = true).
   { apply c14_consistent_true. intros k pc o Hpc Ho. rewrite Hobs in Ho.
-    destruct (obs_position c s' k (Some o) I Ho) as [E|(h & p & pc' & Hk & Hsl & Eo & Hpc' & (F1 & _) & _)]; [discriminate E|].
+    destruct (obs_position c s' k (Some o) I Ho) as [E|(h & p & pc' & Hk & Hsl & Eo & Hpc' & (F1 & _))]; [discriminate E|].
     rewrite Hpc in Hpc'. inversion Hpc'; subst pc'. inversion Eo; subst o. cbn [ob_live ob_running observe_periph].
     pose proof (proj1 Hlife _ _ Hsl) as Hrl. unfold RL in Hrl. rewrite F1 in Hrl.
     unfold is_live, is_running. apply agree_b_public. exact Hrl. }
@@ -3924,7 +3931,7 @@ Proof.
     intros _. apply turns_fresh; [exact Hpr|].
     intros a Ha. rewrite due_after_eq in Ha. destruct (due_go_in _ _ _ Ha) as (k & pc & o & Hpc & Ho & Hadr & Hlv & Hcm).
     rewrite Hobs in Ho.
-    destruct (obs_position c s' k (Some o) I Ho) as [E|(h & p & pc' & Hk & Hsl & Eo & Hpc' & (F1 & F2 & _) & _)]; [discriminate E|].
+    destruct (obs_position c s' k (Some o) I Ho) as [E|(h & p & pc' & Hk & Hsl & Eo & Hpc' & (F1 & F2 & _))]; [discriminate E|].
     rewrite Hpc in Hpc'. inversion Hpc'; subst pc'. inversion Eo; subst o. cbn [ob_live observe_periph] in Hlv.
     exists (hd_index h), p. split; [exact Hsl|]. split; [congruence|]. split; [exact Hlv|].
     unfold complete. rewrite F2. exact Hcm.
@@ -4002,8 +4009,8 @@ Lemma c14_static : forall s gs pend g t s' gs' n,
 Proof.
   intros s gs pend g t s' gs' n (HB & Hh & Hcc & Hlife & HP & HT) HB' Hhs Hnadd Hus Hpr Hcy Hv Hev Hncc Hobs Hout.
   rewrite c14_step_eq.
-  assert (Ehs : c14_hs g t = sy_handles s').
-  { unfold c14_hs. rewrite Hh, Hhs. destruct (ts_in t); try reflexivity. now elim (Hnadd k). }
+  assert (Ehs : c14_hs g t = chs c s').
+  { unfold c14_hs, chs. rewrite Hh, Hhs. unfold chs. destruct (ts_in t); try reflexivity. now elim (Hnadd k). }
   assert (Edirty : c14_dirty g t = g14_dirty g).
   { unfold c14_dirty. destruct (ts_in t); try reflexivity. now elim (Hnadd k). }
   assert (Er1 : c14_r1 (Z.to_nat (p_max_retry (cf_params c))) g (c14_hs g t) (c14_dirty g t) t =
@@ -4015,7 +4022,7 @@ Proof.
   assert (Hpn : pend_next_v pend (view_of t) = pend \/ pend_next_v pend (view_of t) = None).
   { destruct Hv as [->|[(a & ->)|[->|[(h & pdu & ->)|(-> & _)]]]]; cbn; auto. }
   destruct (ts_out t) eqn:Eout; try contradiction; cbn zeta; rewrite Er1, Er2, Ehs, Edirty;
-    (apply (c14_tail s' gs' _ g (g14_life g) (sy_handles s') (g14_turns g) (g14_cur g) (g14_sends g) (g14_dirty g) t (pos_rem (sy_m s')));
+    (apply (c14_tail s' gs' _ g (g14_life g) (chs c s') (g14_turns g) (g14_cur g) (g14_sends g) (g14_dirty g) t (pos_rem (sy_m s')));
      [exact HB'|reflexivity|apply (ccomp_static (sy_m s)); assumption|apply (per_ok_user_same (sy_m s) gs); assumption|exact Hobs
      |intros da E; destruct Hpn as [Hpn|Hpn]; rewrite Hpn in E; [apply HP; exact E|discriminate E]
      |intro E; rewrite Hncc in E; discriminate E
@@ -4297,7 +4304,7 @@ Proof.
   { rewrite Hstepcc. intro E. rewrite E in Hpost. destruct Hpost as (Hr' & Hpr). split; [|exact Hpr].
     destruct o as [x|]; [|reflexivity]. destruct (V5 ltac:(discriminate)) as (js & r & _ & _ & _ & _ & Er & _).
     rewrite Hr' in Er. discriminate Er. }
-  assert (Hhs : c14_hs g t = sy_handles s') by (unfold c14_hs; cbn; exact Hh).
+  assert (Hhs : c14_hs g t = chs c s') by (unfold c14_hs; cbn; exact Hh).
   assert (Hdirty : c14_dirty g t = g14_dirty g) by reflexivity.
   assert (Hopt : ts_op t <> OpStop) by (cbn; rewrite Hop'; exact Hop).
   rewrite Hpos in HT.
@@ -4307,12 +4314,12 @@ Proof.
     destruct Hvis as (Ho & Hev). subst o.
     assert (Hv : view_of t = VNoTx) by reflexivity.
     assert (Hse : step_event t = None) by (unfold step_event; cbn; rewrite Hev; reflexivity).
-    assert (Hr1 : c14_r1 (Z.to_nat (p_max_retry (cf_params c))) g (sy_handles s') (g14_dirty g) t =
+    assert (Hr1 : c14_r1 (Z.to_nat (p_max_retry (cf_params c))) g (chs c s') (g14_dirty g) t =
                   inl (g14_turns g, (if g14_dirty g then g14_cur g else None), (if g14_dirty g then g14_sends g else 0%nat))).
     { unfold c14_r1. rewrite Hv. destruct (g14_dirty g); [reflexivity|].
       destruct (ts_op t) eqn:E; [now elim Hopt|reflexivity|reflexivity]. }
     rewrite Hr1. unfold c14_r2. rewrite Hse.
-    apply (c14_tail c s' gs' _ g (g14_life g) (sy_handles s') (g14_turns g) _ _ (g14_dirty g) t rem').
+    apply (c14_tail c s' gs' _ g (g14_life g) (chs c s') (g14_turns g) _ _ (g14_dirty g) t rem').
     + rewrite Hv. split; [exact I'|]. apply (ginv_frame _ m1); [reflexivity|reflexivity|exact G'].
     + reflexivity.
     + exact Hcc'.
@@ -4332,7 +4339,7 @@ Proof.
     destruct Hvis as (w & q & Ho & Henc & Hev & Hcur & Hq). subst o.
     destruct (Hslots _ _ Hq) as (q' & Hq' & Hpost'). cbn [slot_post] in Hpost'. rewrite Nat.eqb_refl in Hpost'.
     destruct Hpost' as (q1 & g1 & HQ & I1 & Hp & Hg' & Hreq).
-    destruct (slot_handle c s i q I Hq) as (k & pc & _ & Hpc & Hfit).
+    destruct (slot_handle c s i q I Hq) as (k & _ & pc & _ & _ & Hpc & Hfit).
     assert (Hfit1 : fits pc q1).
     { destruct Hfit as (F1 & F2 & F3 & F4). unfold fits.
       rewrite (qu_addr _ _ _ _ HQ), (qu_opts _ _ _ _ HQ), (qu_pi_i _ _ _ _ HQ), (qu_pi_q _ _ _ _ HQ). auto. }
@@ -4350,7 +4357,7 @@ Proof.
     { apply (cur_is_fun m1); [exact Hcur|]. exists r. change (pos_rem m1) with (pos_rem (sy_m s')). rewrite <- Hrem. exact Erem. }
     subst js. rewrite Hq in Hqs. inversion Hqs; subst qs. rewrite Hq' in Hqs'. inversion Hqs'; subst qs'.
     assert (Haq' : pe_addr q' = pe_addr q) by (destruct (transmit_keeps _ _ _ _ _ Hps) as (E & _); exact E).
-    assert (Hidx : index_of_addr (sy_handles s') (h_da h) = Some i).
+    assert (Hidx : index_of_addr (chs c s') (h_da h) = Some i).
     { rewrite Hda, <- Haq'. apply (slot_index_of_addr c Hc s' i q' I'). exact Hq'. }
     pose proof (transmit_spec _ _ _ _ _ Hps) as Hts. cbn beta iota in Hts. destruct Hts as (Hex & _ & _ & _ & _ & Hre & Hst).
     unfold dp_retry_exhausted in Hex. apply Z.ltb_ge in Hex.
@@ -4364,7 +4371,7 @@ Proof.
         (fun j Hj Hne => eq_trans (Hsl' j) (Hoth j Hj Hne)) Hncc').
     (* the turn bookkeeping of the monitor *)
     assert (Hr1 : exists turns1 sends1,
-              c14_r1 (Z.to_nat (p_max_retry (cf_params c))) g (sy_handles s') (g14_dirty g) t =
+              c14_r1 (Z.to_nat (p_max_retry (cf_params c))) g (chs c s') (g14_dirty g) t =
                 inl (turns1, Some (h_da h), sends1) /\
               (g14_dirty g = true -> turns1 = g14_turns g) /\
               (g14_dirty g = false -> Turns (sy_m s') (i :: r) turns1 (Some (h_da h)) sends1 (g14_due g))).
@@ -4384,17 +4391,17 @@ Proof.
           rewrite Hex0.
           assert (Hio : match g14_turns g with
                         | [] => true
-                        | prev :: _ => match index_of_addr (sy_handles s') prev with Some px => Nat.ltb px i | None => true end
+                        | prev :: _ => match index_of_addr (chs c s') prev with Some px => Nat.ltb px i | None => true end
                         end = true).
           { destruct (g14_turns g) as [|prev rest] eqn:Et; [reflexivity|].
             destruct (Hord prev rest eq_refl) as (ip & pp & Hpp & Hpa & Hlt).
             destruct (Hfw _ _ Hpp) as (pp' & Hpp' & Ea).
-            rewrite <- Hpa, <- Ea. rewrite (slot_index_of_addr c Hc s' ip pp' I' Hpp'). apply Nat.ltb_lt. exact Hlt. }
+            rewrite <- Hpa, <- Ea. unfold chs. rewrite (slot_index_of_addr c Hc s' ip pp' I' Hpp'). apply Nat.ltb_lt. exact Hlt. }
           rewrite Hio.
           eexists; eexists. split; [reflexivity|]. split; [intro X; discriminate X|intros _; exact HT']. }
     destruct Hr1 as (turns1 & sends1 & -> & Hdt & Hnt).
     unfold c14_r2. rewrite Hse.
-    apply (c14_tail c s' gs' _ g (g14_life g) (sy_handles s') turns1 _ _ (g14_dirty g) t (i :: r)).
+    apply (c14_tail c s' gs' _ g (g14_life g) (chs c s') turns1 _ _ (g14_dirty g) t (i :: r)).
     + rewrite Hv. split; [exact I'|]. apply (ginv_frame _ m1); [reflexivity|reflexivity|exact G'].
     + reflexivity.
     + exact Hcc'.
@@ -4420,7 +4427,7 @@ Proof.
     assert (Hse : step_event t = Some (pe_addr q, EvOffline)) by (unfold step_event; cbn; rewrite Hev; reflexivity).
     assert (Haq' : pe_addr q' = pe_addr q).
     { destruct (transmit_keeps _ _ _ _ _ Hp) as (E & _). rewrite E. apply (qu_addr _ _ _ _ HQ). }
-    assert (Hr1 : c14_r1 (Z.to_nat (p_max_retry (cf_params c))) g (sy_handles s') (g14_dirty g) t =
+    assert (Hr1 : c14_r1 (Z.to_nat (p_max_retry (cf_params c))) g (chs c s') (g14_dirty g) t =
                   inl (g14_turns g, (if g14_dirty g then g14_cur g else None), (if g14_dirty g then g14_sends g else 0%nat))).
     { unfold c14_r1. rewrite Hv. destruct (g14_dirty g); [reflexivity|].
       destruct (ts_op t) eqn:E; [now elim Hopt|reflexivity|reflexivity]. }
@@ -4429,9 +4436,9 @@ Proof.
     assert (Hag : agree (alist_get LOff (g14_life g) (pe_addr q)) q1).
     { eapply RL_agree; [eapply RL_quiet; eassumption|exact I1]. }
     pose proof (tx_agree _ _ _ _ _ _ Hmax Hag Hp) as Hta. cbn beta iota in Hta. destruct Hta as (l' & Hl & Hag').
-    assert (Hidx : index_of_addr (sy_handles s') (pe_addr q) = Some i).
+    assert (Hidx : index_of_addr (chs c s') (pe_addr q) = Some i).
     { rewrite <- Haq'. apply (slot_index_of_addr c Hc s' i q' I'). exact Hq'. }
-    rewrite (c14_r2_event g (sy_handles s') (g14_turns g) t (pe_addr q) EvOffline (dm_events m1) i l' Hse eq_refl Hev Hidx Hl).
+    rewrite (c14_r2_event g (chs c s') (g14_turns g) t (pe_addr q) EvOffline (dm_events m1) i l' Hse eq_refl Hev Hidx Hl).
     set (turns2 := if existsb (Z.eqb (pe_addr q)) (g14_turns g) then g14_turns g else pe_addr q :: g14_turns g).
     assert (Ht2 : In (pe_addr q) turns2 /\ (forall x, In x (g14_turns g) -> In x turns2) /\
                   (forall x, In x turns2 -> x = pe_addr q \/ In x (g14_turns g))).
@@ -4440,7 +4447,7 @@ Proof.
       - split; [left; reflexivity|]. split; [intros x Hx; right; exact Hx|]. intros x [<-|Hx]; auto. }
     destruct Ht2 as (T2a & T2b & T2c).
     assert (Hiv : In i vis) by (apply (V7 _ _ Hev)).
-    apply (c14_tail c s' gs' _ g (alist_set (g14_life g) (pe_addr q) l') (sy_handles s') turns2 _ _ (g14_dirty g) t rem').
+    apply (c14_tail c s' gs' _ g (alist_set (g14_life g) (pe_addr q) l') (chs c s') turns2 _ _ (g14_dirty g) t rem').
     + rewrite Hv. split; [exact I'|]. apply (ginv_frame _ m1); [reflexivity|reflexivity|exact G'].
     + reflexivity.
     + exact Hcc'.
@@ -4508,10 +4515,10 @@ Proof.
   assert (Hcc' : Ccomp (sy_m s')).
   { intros _ Hn. assert (X : In i (occupied (sy_m s'))) by (apply occupied_in_slot; exists p1; rewrite Hsls; exact Hsl').
     rewrite Hn in X. destruct X. }
-  assert (Hhs : c14_hs g t = sy_handles s') by (unfold c14_hs; cbn; exact Hh).
+  assert (Hhs : c14_hs g t = chs c s') by (unfold c14_hs; cbn; exact Hh).
   assert (Hdirty : c14_dirty g t = g14_dirty g) by reflexivity.
   rewrite c14_step_eq. cbn [ts_out t]. cbn zeta. rewrite Hhs, Hdirty.
-  assert (Hr1 : c14_r1 (Z.to_nat (p_max_retry (cf_params c))) g (sy_handles s') (g14_dirty g) t =
+  assert (Hr1 : c14_r1 (Z.to_nat (p_max_retry (cf_params c))) g (chs c s') (g14_dirty g) t =
                 inl (g14_turns g, None, 0%nat)).
   { unfold c14_r1. rewrite Hv. destruct (g14_dirty g); reflexivity. }
   rewrite Hr1.
@@ -4520,14 +4527,14 @@ Proof.
   assert (Hag : agree (alist_get LOff (g14_life g) addr) p) by (eapply RL_agree; [exact Hrl|exact Ii]).
   pose proof (rx_agree _ _ _ _ _ Hag Hp) as Hra.
   destruct (receive_reply_outcome _ _ _ _ Hp) as (Hal & _ & _). pose proof (rx_off _ _ _ Hal) as Hoff.
-  assert (Hidx : index_of_addr (sy_handles s') addr = Some i).
+  assert (Hidx : index_of_addr (chs c s') addr = Some i).
   { rewrite <- Ha, <- Hap. apply (slot_index_of_addr c Hc s' i p1 I'). rewrite Hsls. exact Hsl'. }
-  assert (Hr2 : exists life', c14_r2 g (sy_handles s') (g14_turns g) t = inl (life', g14_turns g) /\
+  assert (Hr2 : exists life', c14_r2 g (chs c s') (g14_turns g) t = inl (life', g14_turns g) /\
                   per_ok lstate LOff RL (sy_m s') (gupd gs i (gstep (gs i) (WReply tg ev))) life').
   { destruct ev as [e|].
     - destruct Hra as (l' & Hl & Hag').
       exists (alist_set (g14_life g) addr l'). split.
-      + rewrite (c14_r2_event g (sy_handles s') (g14_turns g) t addr e (dm_events m1) i l' Hse eq_refl); auto.
+      + rewrite (c14_r2_event g (chs c s') (g14_turns g) t addr e (dm_events m1) i l' Hse eq_refl); auto.
         * destruct e; try reflexivity. cbn beta iota in Hoff. contradiction.
         * rewrite Hev. reflexivity.
       + apply (per_ok_set _ _ _ (sy_m s) gs (g14_life g) (sy_m s') _ i addr l' Hlife Hinj); [|exact Hfw|exists p; auto].
@@ -4544,7 +4551,7 @@ Proof.
       + rewrite Hoth in Hq' by exact Hne. exists q'. split; [exact Hq'|]. split; [reflexivity|]. intros x Hx; exact Hx. }
   destruct Hr2 as (life' & -> & Hlife').
   assert (Haddr : addr = pe_addr p) by (symmetry; exact Ha).
-  apply (c14_tail c s' _ None g life' (sy_handles s') (g14_turns g) None 0%nat (g14_dirty g) t r).
+  apply (c14_tail c s' _ None g life' (chs c s') (g14_turns g) None 0%nat (g14_dirty g) t r).
   - split; [exact I'|]. apply (ginv_frame _ m1); [reflexivity|reflexivity|exact G'].
   - reflexivity.
   - exact Hcc'.
@@ -4574,13 +4581,13 @@ Proof. intros m m' H j. left. apply H. Qed.
 
 Lemma c14_sound_step : forall s gs pend g i t s' n,
   Rel14 c s gs pend g -> model_step s i = Ok (s', t) ->
-  head_ok (p_address (cf_params c)) (sy_handles s) pend t ->
+  head_ok (p_address (cf_params c)) (sy_handles s) pend t -> is_reset_in i = false ->
   exists gs' g', c14_step c g n t = inl g' /\
                  Rel14 c s' gs' (pend_next_v pend (view_of t)) g' /\ sy_handles s' = hs_next (sy_handles s) t.
 Proof.
-  intros s gs pend g i t s' n HR Hstep Hhead.
+  intros s gs pend g i t s' n HR Hstep Hhead Hnri.
   pose proof HR as (HB & Hh & Hcc & Hlife & HP & HT).
-  destruct (model_trans c Hc s gs pend i t s' HB Hstep Hhead) as (gs' & HB' & Hhs & Hti & Hto & Htop & Hopk & HTr).
+  destruct (model_trans c Hc s gs pend i t s' HB Hstep Hhead Hnri) as (gs' & HB' & Hhs & Hti & Hto & Htop & Hopk & HTr).
   pose proof HB as [I G]. pose proof HB' as [I' G'].
   pose proof Hhead as (Hbad & Hview & _).
   pose proof (co_auto _ Hc) as Hauto.
@@ -4678,7 +4685,7 @@ Proof.
     exists gs'. rewrite c14_step_eq. cbn [ts_out]. cbn zeta.
     assert (Ehs : c14_hs g (mkStep (InAdd k) false (OutHandle (mkHandle j (pc_addr pc))) None
                            (observe (mkSys (sy_conf s) m1 (set_nth (sy_handles s) k (Some (mkHandle j (pc_addr pc)))) (sy_slaves s)))
-                           (dm_op m1)) = set_nth (sy_handles s) k (Some (mkHandle j (pc_addr pc))))
+                           (dm_op m1)) = set_nth (chs c s) k (Some (mkHandle j (pc_addr pc))))
       by (unfold c14_hs; cbn; rewrite Hh; reflexivity).
     rewrite Ehs.
     match goal with |- context [c14_r1 ?mr g ?hs ?d ?tt] =>
@@ -4688,13 +4695,13 @@ Proof.
     rewrite Er1, Er2.
     destruct (dp_add_post _ _ _ _ Hdadd) as (_ & _ & _ & _ & _ & _ & A3 & _).
     match goal with |- exists g', ?X = inl g' /\ _ =>
-      destruct (c14_tail c _ gs' None g (g14_life g) (set_nth (sy_handles s) k (Some (mkHandle j (pc_addr pc))))
+      destruct (c14_tail c _ gs' None g (g14_life g) (set_nth (chs c s) k (Some (mkHandle j (pc_addr pc))))
                   (g14_turns g) (g14_cur g) (g14_sends g) true
                   (mkStep (InAdd k) false (OutHandle (mkHandle j (pc_addr pc))) None
                      (observe (mkSys (sy_conf s) m1 (set_nth (sy_handles s) k (Some (mkHandle j (pc_addr pc)))) (sy_slaves s)))
                      (dm_op m1)) [] HB') as (g' & Hg1 & Hg2)
     end.
-    + reflexivity.
+    + unfold chs. cbn [sy_handles]. symmetry. apply cur_hs_set_nth. exact Hpc.
     + cbn [sy_m]. intros E Hn. rewrite A3 in E. specialize (Hcc E).
       destruct (occupied (sy_m s)) as [|j0 r0] eqn:Eo; [now elim Hcc|].
       assert (Hj0 : In j0 (occupied (sy_m s))) by (rewrite Eo; left; reflexivity).
@@ -4733,31 +4740,10 @@ Proof.
       |rewrite Hm; reflexivity|rewrite Hm; reflexivity
       |left; destruct o; try contradiction; reflexivity|reflexivity|reflexivity
       |destruct o; try contradiction; exact Logic.I].
-  - (* reset_address: excluded (no_reset) *)
-    exfalso. destruct Hhead as (_ & _ & Hx). destruct (model_out_shape _ _ _ _ Hstep) as (E & _). rewrite E in Hx. exact Hx.
+  - (* reset_address: handled separately *)
+    discriminate Hnri.
 Qed.
 
-
-Theorem c14_oracle_sound : forall s0 ins s' tr,
-  init_sys c = Ok s0 -> no_reset ins = true -> model_run s0 ins = Ok (s', tr) ->
-  contract_ok c tr = true -> driver_ok (sy_handles s0) tr = true ->
-  c14_monitor c (sy_handles s0) tr = None.
-Proof.
-  intros s0 ins s' tr Hinit Hnr Hrun Hct Hdr.
-  pose proof (model_run_no_reset _ _ _ _ Hrun Hnr) as Hnr'.
-  destruct (init_invariants c s0 Hc Hinit) as (I0 & G0 & Hop0 & Hcy0 & Hfresh).
-  unfold c14_monitor.
-  apply (sound_generic c c14g (c14_step c) (Rel14 c) c14_sound_step
-           ins s0 (fun _ => ghost0) None (mkC14g [] (sy_handles s0) [] None [] 0 false) s' tr 0%nat); auto.
-  split; [split; assumption|]. cbn [g14_handles g14_life g14_cur g14_dirty g14_turns g14_sends g14_due].
-  split; [reflexivity|]. split; [intro E; rewrite Hcy0 in E; discriminate E|]. split.
-  - split.
-    + intros i p Hp. destruct (Hfresh _ _ Hp) as (k & pc & _ & ->). reflexivity.
-    + intros a _. reflexivity.
-  - split; [intros da E; discriminate E|]. intros _. apply turns_fresh.
-    + apply pos_rem_zero. exact Hcy0.
-    + intros a [].
-Qed.
 
 End C14c.
 
@@ -4809,20 +4795,672 @@ Proof.
   - exfalso. vm_compute in E0. inversion E0; subst s0. vm_compute in E1. discriminate E1.
 Qed.
 
-(* PART 19: the monitors the driver runs (reset_address wrappers) are the plain monitors on histories without
-   reset_address *)
+(* PART 20: reset_address on the model side *)
 
-Definition step_is_reset (s : tstep) : bool := match ts_in s with InResetAddr _ _ => true | _ => false end.
+(* ------------------------------------------------------------------ the configuration in force *)
 
-Lemma reset_of_none : forall c s, step_is_reset s = false -> reset_of c s = None.
-Proof. intros c s H. unfold reset_of, step_is_reset in *. destruct (ts_in s); try reflexivity. discriminate H. Qed.
+Lemma nth_set_addr : forall c k a k',
+  nth_error (cf_periphs (conf_set_addr c k a)) k' =
+  if Nat.eqb k' k then option_map (fun p => pconf_set_addr p a) (nth_error (cf_periphs c) k)
+  else nth_error (cf_periphs c) k'.
+Proof.
+  intros c k a k'. unfold conf_set_addr. cbn [cf_periphs].
+  destruct (nth_error (cf_periphs c) k) as [pc|] eqn:Hk.
+  - assert (Hlt : (k < length (cf_periphs c))%nat) by (apply nth_error_Some; rewrite Hk; discriminate).
+    destruct (Nat.eqb_spec k' k) as [->|Hne].
+    + rewrite set_nth_same by exact Hlt. reflexivity.
+    + apply set_nth_other. exact Hne.
+  - destruct (Nat.eqb_spec k' k) as [->|Hne]; [exact Hk|reflexivity].
+Qed.
+
+Lemma len_set_addr : forall c k a, length (cf_periphs (conf_set_addr c k a)) = length (cf_periphs c).
+Proof.
+  intros c k a. unfold conf_set_addr. cbn [cf_periphs].
+  destruct (nth_error (cf_periphs c) k); [apply set_nth_length|reflexivity].
+Qed.
+
+Lemma conf_ok_set_addr : forall c k a,
+  conf_ok c -> conf_sane (conf_set_addr c k a) = true -> 0 <= a <= 125 -> conf_ok (conf_set_addr c k a).
+Proof.
+  intros c k a Hc Hs Ha. constructor.
+  - exact (co_auto _ Hc).
+  - exact Hs.
+  - pose proof (co_limits _ Hc) as Hl. unfold conf_within_limits in *.
+    apply andb_true_iff in Hl. destruct Hl as [H1 H2]. apply andb_true_iff. split; [exact H1|].
+    rewrite forallb_forall in *. intros x Hx. apply In_nth_error in Hx. destruct Hx as (k' & Hk').
+    rewrite nth_set_addr in Hk'. destruct (Nat.eqb k' k).
+    + destruct (nth_error (cf_periphs c) k) as [pc|] eqn:Hk; [|discriminate Hk']. inversion Hk'; subst x.
+      specialize (H2 pc (nth_error_In _ _ Hk)).
+      repeat (apply andb_true_iff in H2; let X := fresh "X" in destruct H2 as [H2 X]).
+      cbn [pconf_set_addr pc_addr pc_in pc_out pc_opts]. rewrite X, X0, X1, X2.
+      replace (0 <=? a) with true by (symmetry; apply Z.leb_le; lia).
+      replace (a <=? 125) with true by (symmetry; apply Z.leb_le; lia). reflexivity.
+    + apply H2. apply (nth_error_In _ _ Hk').
+  - exact (co_retry _ Hc).
+  - exact (co_own _ Hc).
+  - intros k1 pc1 i H1 Hsl. rewrite nth_set_addr in H1.
+    assert (Hbase : forall k2 pc2, nth_error (cf_periphs (conf_set_addr c k a)) k2 = Some pc2 ->
+              exists pc0, nth_error (cf_periphs c) k2 = Some pc0 /\ pc_slot pc0 = pc_slot pc2).
+    { intros k2 pc2 H. rewrite nth_set_addr in H. destruct (Nat.eqb_spec k2 k) as [->|Hne].
+      - destruct (nth_error (cf_periphs c) k) as [pc0|]; [|discriminate H]. inversion H; subst pc2.
+        exists pc0. split; reflexivity.
+      - exists pc2. split; [exact H|reflexivity]. }
+    assert (H1' : nth_error (cf_periphs (conf_set_addr c k a)) k1 = Some pc1) by (rewrite nth_set_addr; exact H1).
+    destruct (Hbase _ _ H1') as (pc0 & Hpc0 & Es). rewrite <- Es in Hsl.
+    destruct (co_placed _ Hc k1 pc0 i Hpc0 Hsl) as (Hlt & Hu). split; [exact Hlt|].
+    intros k' pc' Hk' Hs'. destruct (Hbase _ _ Hk') as (pc0' & Hpc0' & Es'). rewrite <- Es' in Hs'.
+    apply (Hu k' pc0' Hpc0' Hs').
+Qed.
+
+Lemma ra_sane_head : forall c l, ra_sane c l = true -> conf_sane c = true.
+Proof. intros c [|t r] H; cbn [ra_sane] in H; [exact H|]. apply andb_true_iff in H. exact (proj1 H). Qed.
+
+(* ------------------------------------------------------------------ the guards on reset_address steps *)
+
+(* a reset_address step: the new address is a station address (0..125) and no reply of that peripheral is
+   outstanding (DpOracle.known_reset_while_pending, F22) *)
+Fixpoint reset_guard (c : conf) (pend : option Z) (l : list tstep) : bool :=
+  match l with
+  | [] => true
+  | s :: r =>
+      match reset_of c s with
+      | Some (k, old, a) =>
+          (0 <=? a) && (a <=? 125) &&
+          negb (match pend with Some da => da =? old | None => false end) &&
+          reset_guard (conf_set_addr c k a) pend r
+      | None => reset_guard c (pend_next_v pend (view_of s)) r
+      end
+  end.
+
+(* ------------------------------------------------------------------ the step of the model *)
+
+Lemma step_reset : forall s k a s' t,
+  model_step s (InResetAddr k a) = Ok (s', t) -> is_bad (ts_out t) = false ->
+  exists h p, nth_error (sy_handles s) k = Some (Some h) /\ slot (sy_m s) (hd_index h) = Some p /\
+    s' = set_m s (set_slots (sy_m s) (put_slot (dm_slots (sy_m s)) (hd_index h) (p_reset_address p a))) /\
+    t = mkStep (InResetAddr k a) false OutUnit None (observe s') (dm_op (sy_m s)).
+Proof.
+  intros s k a s' t H Hb. unfold model_step in H. cbn [run_in] in H. unfold handle_of in H.
+  destruct (nth_error (sy_handles s) k) as [[h|]|] eqn:Hh;
+    try (cbn [bind] in H; inversion H; subst t; discriminate Hb).
+  unfold dp_reset_address, dp_update in H.
+  destruct (dp_get_mut (sy_m s) h) as [p| |] eqn:Hg; cbn [bind] in H; try discriminate H.
+  rewrite auto_take_other in H by reflexivity. cbn [fst snd taken_of] in H. inversion H; subst s' t.
+  exists h, p. split; [reflexivity|]. split; [apply dp_get_mut_slot; exact Hg|]. split; reflexivity.
+Qed.
+
+Lemma reset_inv : forall pa p a, 0 <= p_max_retry pa ->
+  Inv pa a (pe_opts p) (p_reset_address p a) ghost0.
+Proof.
+  intros. constructor; cbn; try reflexivity; try lia; try discriminate; auto; intros; try lia; try discriminate;
+    try contradiction.
+Qed.
+
+Section Reset.
+Variable c : conf.
+Hypothesis Hc : conf_ok c.
+
+(* what a reset_address step does to the system and to the invariants *)
+Lemma reset_trans : forall s gs pend k a s' t,
+  Base c s gs pend -> model_step s (InResetAddr k a) = Ok (s', t) -> is_bad (ts_out t) = false ->
+  exists h pc p,
+    nth_error (sy_handles s) k = Some (Some h) /\ nth_error (cf_periphs c) k = Some pc /\
+    slot (sy_m s) (hd_index h) = Some p /\ fits pc p /\
+    reset_of c t = Some (k, pc_addr pc, a) /\
+    sy_handles s' = sy_handles s /\
+    t = mkStep (InResetAddr k a) false OutUnit None (observe s') (dm_op (sy_m s')) /\
+    slot (sy_m s') (hd_index h) = Some (p_reset_address p a) /\
+    (forall j, j <> hd_index h -> slot (sy_m s') j = slot (sy_m s) j) /\
+    pos_rem (sy_m s') = pos_rem (sy_m s) /\ dm_cycle (sy_m s') = dm_cycle (sy_m s) /\
+    dm_op (sy_m s') = dm_op (sy_m s) /\
+    (conf_ok (conf_set_addr c k a) -> pend <> Some (pc_addr pc) ->
+     Base (conf_set_addr c k a) s' (gupd gs (hd_index h) ghost0) pend).
+Proof.
+  intros s gs pend k a s' t [I G] Hstep Hb.
+  destruct (step_reset _ _ _ _ _ Hstep Hb) as (h & p & Hk & Hsl & Es & Et).
+  destruct (si_h _ _ I _ _ Hk) as (pc & p0 & Hpc & Hsl0 & Hfit). rewrite Hsl in Hsl0. inversion Hsl0; subst p0.
+  remember (hd_index h) as i eqn:Ei.
+  assert (Hslots : forall j, slot (sy_m s') j = if Nat.eqb j i then Some (p_reset_address p a) else slot (sy_m s) j).
+  { intro j. rewrite Es. cbn [sy_m set_m]. destruct (Nat.eqb_spec j i) as [->|Hne].
+    - apply (slot_put_same _ _ _ _ Hsl).
+    - apply slot_put_other. intro E; apply Hne; symmetry; exact E. }
+  assert (Hhs : sy_handles s' = sy_handles s) by (rewrite Es; reflexivity).
+  assert (Hpr : pos_rem (sy_m s') = pos_rem (sy_m s)).
+  { rewrite Es. cbn [sy_m set_m]. apply pos_rem_mask; [apply (mask_put _ _ _ _ Hsl)|reflexivity]. }
+  assert (Hop : dm_op (sy_m s') = dm_op (sy_m s)) by (rewrite Es; reflexivity).
+  exists h, pc, p. rewrite <- Ei. split; [exact Hk|]. split; [exact Hpc|]. split; [exact Hsl|]. split; [exact Hfit|].
+  split; [rewrite Et; unfold reset_of, conf_addr; cbn [ts_in ts_out]; rewrite Hpc; reflexivity|].
+  split; [exact Hhs|]. split; [rewrite Hop; exact Et|].
+  split; [rewrite Hslots, Nat.eqb_refl; reflexivity|].
+  split; [intros j Hne; rewrite Hslots; destruct (Nat.eqb_spec j i); [contradiction|reflexivity]|].
+  split; [exact Hpr|]. split; [rewrite Es; reflexivity|]. split; [exact Hop|].
+  intros Hc' Hpend. split.
+  - (* SInv *)
+    constructor.
+    + destruct (si_conf _ _ I) as (E1 & E2 & E3 & E4). rewrite Es. cbn [sy_conf set_m].
+      unfold conf_like. rewrite len_set_addr. unfold conf_set_addr. cbn [cf_params cf_bufsize cf_autotake]. auto.
+    + rewrite Hhs, len_set_addr. exact (si_len _ _ I).
+    + rewrite Es. cbn [sy_m set_m dm_events set_slots]. exact (si_events _ _ I).
+    + intros k' h' Hk'. rewrite Hhs in Hk'. rewrite nth_set_addr. destruct (Nat.eqb_spec k' k) as [->|Hne].
+      * rewrite Hk in Hk'. inversion Hk'; subst h'. rewrite Hpc. cbn [option_map].
+        exists (pconf_set_addr pc a), (p_reset_address p a). split; [reflexivity|].
+        split; [rewrite <- Ei, Hslots, Nat.eqb_refl; reflexivity|].
+        destruct Hfit as (F1 & F2 & F3 & F4). unfold fits. cbn. auto.
+      * destruct (si_h _ _ I _ _ Hk') as (pc' & p' & Hpc' & Hs' & Hf'). exists pc', p'.
+        split; [exact Hpc'|]. split; [|exact Hf']. rewrite Hslots.
+        destruct (Nat.eqb_spec (hd_index h') i) as [E|_]; [|exact Hs'].
+        exfalso. apply Hne. apply (handle_index_unique c Hc s k' k h' h I Hk' Hk). congruence.
+    + intros j q Hq. rewrite Hhs. rewrite Hslots in Hq. destruct (Nat.eqb_spec j i) as [->|Hne].
+      * exists k, h. split; [exact Hk|symmetry; exact Ei].
+      * apply (si_s _ _ I _ _ Hq).
+    + intros k' Hk'. rewrite Hhs in Hk'. rewrite nth_set_addr. destruct (Nat.eqb_spec k' k) as [->|Hne].
+      * rewrite Hk in Hk'. discriminate Hk'.
+      * rewrite Es. cbn [sy_conf set_m]. apply (si_late _ _ I). exact Hk'.
+  - (* GInv *)
+    assert (Epa : cf_params (conf_set_addr c k a) = cf_params c) by reflexivity. rewrite Epa.
+    destruct G as [G1 G2 G3]. constructor.
+    + intros j q Hq. rewrite Hslots in Hq. unfold gupd. destruct (Nat.eqb_spec j i) as [->|Hne].
+      * inversion Hq; subst q. cbn [pe_addr pe_opts p_reset_address]. apply reset_inv.
+        pose proof (co_retry _ Hc). lia.
+      * apply G1. exact Hq.
+    + intros j q Hq Ho. rewrite Hslots in Hq. unfold gupd in Ho. destruct (Nat.eqb_spec j i) as [->|Hne].
+      * discriminate Ho.
+      * unfold cur_is. rewrite Hpr. apply (G2 j q Hq Ho).
+    + intros da E. destruct (G3 da E) as (j & q & Hcur & Hq & Ha & Ho).
+      assert (Hne : j <> i).
+      { intro X. subst j. rewrite Hsl in Hq. inversion Hq; subst q. apply Hpend. rewrite E. f_equal.
+        rewrite <- Ha. exact (proj1 Hfit). }
+      exists j, q. unfold cur_is. rewrite Hpr. split; [exact Hcur|].
+      split; [rewrite Hslots; destruct (Nat.eqb_spec j i); [contradiction|exact Hq]|].
+      split; [exact Ha|]. rewrite gupd_other by exact Hne. exact Ho.
+Qed.
+
+End Reset.
+
+(* ------------------------------------------------------------------ per-address monitor states at a reset *)
+
+Section PerAddrReset.
+Variable A : Type.
+Variable d : A.
+Variable Rp : periph -> ghost -> A -> Prop.
+
+Lemma per_ok_reset : forall m gs per m' i p p' old a,
+  addr_inj m -> slot m i = Some p -> pe_addr p = old -> slot m' i = Some p' -> pe_addr p' = a ->
+  (forall j, j <> i -> slot m' j = slot m j) ->
+  (forall j q, j <> i -> slot m j = Some q -> pe_addr q <> a) ->
+  Rp p' ghost0 d ->
+  per_ok A d Rp m gs per -> per_ok A d Rp m' (gupd gs i ghost0) (alist_set (alist_set per old d) a d).
+Proof.
+  intros m gs per m' i p p' old a Hinj Hp Hold Hp' Ha Hoth Hfree Hr [H1 H2]. split.
+  - intros j q Hq. unfold gupd. destruct (Nat.eqb_spec j i) as [->|Hne].
+    + rewrite Hp' in Hq. inversion Hq; subst q. rewrite Ha, alist_get_set_same. exact Hr.
+    + rewrite Hoth in Hq by exact Hne.
+      rewrite alist_get_set_other by (apply (Hfree j q Hne Hq)).
+      rewrite alist_get_set_other.
+      * apply H1. exact Hq.
+      * intro E. apply Hne. apply (Hinj _ _ _ _ Hq Hp). congruence.
+  - intros x Hx.
+    assert (Hxa : x <> a) by (intro E; apply (Hx i p' Hp'); congruence).
+    rewrite alist_get_set_other by exact Hxa.
+    destruct (Z.eq_dec x old) as [->|Hxo]; [apply alist_get_set_same|].
+    rewrite alist_get_set_other by exact Hxo. apply H2.
+    intros j q Hq. destruct (Nat.eq_dec j i) as [->|Hne].
+    + rewrite Hp in Hq. inversion Hq; subst q. congruence.
+    + apply (Hx j). rewrite Hoth by exact Hne. exact Hq.
+Qed.
+
+End PerAddrReset.
+
+(* the outstanding request is not the one of the reset peripheral *)
+Lemma pend_link_reset : forall m gs pend op m' i p p' g0,
+  addr_inj m' -> slot m i = Some p -> slot m' i = Some p' ->
+  (forall j, j <> i -> slot m' j = slot m j) ->
+  pend <> Some (pe_addr p) ->
+  (forall da, pend = Some da -> exists j q, slot m j = Some q /\ pe_addr q = da) ->
+  pend_link m gs pend op -> pend_link m' (gupd gs i g0) pend op.
+Proof.
+  intros m gs pend op m' i p p' g0 Hinj Hp Hp' Hoth Hne Hex H.
+  destruct pend as [da|], op as [[da' sv]|]; try contradiction; [|exact Logic.I].
+  destruct H as (-> & H). split; [reflexivity|].
+  destruct (Hex da eq_refl) as (j & q & Hq & Hqa).
+  assert (Hji : j <> i) by (intro X; subst j; rewrite Hp in Hq; inversion Hq; subst q; apply Hne; congruence).
+  assert (Hq' : slot m' j = Some q) by (rewrite Hoth by exact Hji; exact Hq).
+  intros i0 p0 Hp0 Ha0.
+  assert (i0 = j) by (apply (Hinj _ _ _ _ Hp0 Hq'); congruence). subst i0.
+  rewrite gupd_other by exact Hji. apply (H j q Hq Hqa).
+Qed.
+
+(* PART 21: transcripts with reset_address: the generic induction; C08 and C03 *)
+
+Lemma reset_of_none : forall c t, is_reset_in (ts_in t) = false -> reset_of c t = None.
+Proof. intros c t H. unfold reset_of. destruct (ts_in t); try reflexivity. discriminate H. Qed.
+
+Lemma reset_view : forall t k a, ts_in t = InResetAddr k a -> view_of t = VOther.
+Proof. intros t k a H. unfold view_of. rewrite H. reflexivity. Qed.
+
+Section GenericRa.
+Variable St : Type.
+Variable ostep : conf -> St -> nat -> tstep -> St + Z.
+Variable ostep_ra : conf * St -> nat -> tstep -> (conf * St) + Z.
+Variable R : conf -> sys -> gmap -> option Z -> St -> Prop.
+Variable P : conf -> Prop.
+
+Hypothesis HP : forall c k a, P c -> P (conf_set_addr c k a).
+Hypothesis Hwrap : forall c g n t, P c -> reset_of c t = None ->
+  ostep_ra (c, g) n t = match ostep c g n t with inl g' => inl (c, g') | inr e => inr e end.
+Hypothesis HRB : forall c s gs pend g, R c s gs pend g -> Base c s gs pend.
+Hypothesis Hstep : forall c, conf_ok c -> forall s gs pend g i t s' n,
+  R c s gs pend g -> model_step s i = Ok (s', t) ->
+  head_ok (p_address (cf_params c)) (sy_handles s) pend t -> is_reset_in i = false ->
+  exists gs' g', ostep c g n t = inl g' /\ R c s' gs' (pend_next_v pend (view_of t)) g' /\
+                 sy_handles s' = hs_next (sy_handles s) t.
+Hypothesis Hreset : forall c, conf_ok c -> P c -> forall s gs pend g k a t s' n old,
+  R c s gs pend g -> model_step s (InResetAddr k a) = Ok (s', t) -> is_bad (ts_out t) = false ->
+  reset_of c t = Some (k, old, a) -> conf_ok (conf_set_addr c k a) -> pend <> Some old ->
+  exists gs' g', ostep_ra (c, g) n t = inl (conf_set_addr c k a, g') /\ R (conf_set_addr c k a) s' gs' pend g'.
+
+Lemma sound_generic_ra : forall ins c s gs pend g s' tr n,
+  conf_ok c -> P c -> R c s gs pend g -> model_run s ins = Ok (s', tr) ->
+  contract_from (p_address (cf_params c)) pend tr = true -> driver_from (sy_handles s) pend tr = true ->
+  ra_sane c tr = true -> reset_guard c pend tr = true ->
+  run_monitor ostep_ra (c, g) n tr = None.
+Proof.
+  induction ins as [|i ins IH]; intros c s gs pend g s' tr n Hc HPc HR Hrun Hct Hdr Hsane Hguard; cbn [model_run] in Hrun.
+  - inversion Hrun; subst. reflexivity.
+  - destruct (model_step s i) as [[s1 t]| |] eqn:Hs; cbn [bind] in Hrun; try discriminate Hrun.
+    destruct (model_run s1 ins) as [[s2 tr1]| |] eqn:Hr; cbn [bind] in Hrun; try discriminate Hrun.
+    inversion Hrun; subst s' tr. clear Hrun.
+    assert (Hb : is_bad (ts_out t) = false).
+    { cbn [driver_from] in Hdr. destruct (is_bad (ts_out t)); [discriminate Hdr|reflexivity]. }
+    pose proof (model_view_not_crash _ _ _ _ Hs Hb) as Hv.
+    destruct (heads _ _ _ _ _ Hct Hdr Hv) as (Hh & Hct' & Hdr').
+    destruct (model_out_shape _ _ _ _ Hs) as (Hin & _).
+    cbn [ra_sane] in Hsane. apply andb_true_iff in Hsane. destruct Hsane as [_ Hsane].
+    cbn [reset_guard] in Hguard. cbn [run_monitor].
+    destruct (is_reset_in i) eqn:Hri.
+    + (* reset_address *)
+      destruct i; try discriminate Hri.
+      pose proof (HRB _ _ _ _ _ HR) as HB.
+      destruct (reset_trans c Hc s gs pend k a s1 t HB Hs Hb)
+        as (h & pc & p & Hk & Hpc & Hsl & Hfit & Hro & Hhs & _).
+      rewrite Hro in Hsane, Hguard.
+      apply andb_true_iff in Hguard. destruct Hguard as [Hguard Hg4].
+      apply andb_true_iff in Hguard. destruct Hguard as [Hguard Hg3].
+      apply andb_true_iff in Hguard. destruct Hguard as [Hg1 Hg2].
+      apply Z.leb_le in Hg1. apply Z.leb_le in Hg2.
+      assert (Hpend : pend <> Some (pc_addr pc)).
+      { intro E. rewrite E, Z.eqb_refl in Hg3. discriminate Hg3. }
+      assert (Hc' : conf_ok (conf_set_addr c k a)).
+      { apply conf_ok_set_addr; [exact Hc|apply (ra_sane_head _ _ Hsane)|lia]. }
+      destruct (Hreset c Hc HPc s gs pend g k a t s1 n (pc_addr pc) HR Hs Hb Hro Hc' Hpend) as (gs' & g' & Ho & HR').
+      rewrite Ho. rewrite (reset_view t k a Hin) in Hct', Hdr'. cbn [pend_next_v] in Hct', Hdr'.
+      rewrite hs_next_other in Hdr' by (intros k' E; rewrite Hin in E; discriminate E).
+      rewrite <- Hhs in Hdr'.
+      apply (IH (conf_set_addr c k a) s1 gs' pend g' s2 tr1 (S n) Hc' (HP _ _ _ HPc) HR' Hr Hct' Hdr' Hsane Hg4).
+    + assert (Hro : reset_of c t = None) by (apply reset_of_none; rewrite Hin; exact Hri).
+      rewrite Hro in Hsane, Hguard.
+      destruct (Hstep c Hc _ _ _ _ _ _ _ n HR Hs Hh Hri) as (gs' & g' & Ho & HR' & Hhs).
+      rewrite (Hwrap c g n t HPc Hro), Ho. rewrite <- Hhs in Hdr'.
+      apply (IH c s1 gs' _ g' s2 tr1 (S n) Hc HPc HR' Hr Hct' Hdr' Hsane Hguard).
+Qed.
+
+End GenericRa.
+
+(* ------------------------------------------------------------------ what every reset lemma needs *)
+
+Lemma reset_common : forall c (Hc : conf_ok c) s gs pend k a s' t old,
+  Base c s gs pend -> model_step s (InResetAddr k a) = Ok (s', t) -> is_bad (ts_out t) = false ->
+  reset_of c t = Some (k, old, a) -> conf_ok (conf_set_addr c k a) -> pend <> Some old ->
+  exists i p,
+    let p' := p_reset_address p a in
+    let gs' := gupd gs i ghost0 in
+    Base (conf_set_addr c k a) s' gs' pend /\
+    slot (sy_m s) i = Some p /\ pe_addr p = old /\ slot (sy_m s') i = Some p' /\
+    (forall j, j <> i -> slot (sy_m s') j = slot (sy_m s) j) /\
+    (forall j q, j <> i -> slot (sy_m s) j = Some q -> pe_addr q <> a) /\
+    addr_inj (sy_m s) /\ addr_inj (sy_m s') /\
+    (forall da, pend = Some da -> exists j q, slot (sy_m s) j = Some q /\ pe_addr q = da) /\
+    sy_handles s' = sy_handles s /\ ts_in t = InResetAddr k a /\ view_of t = VOther /\ step_event t = None /\
+    step_cc t = false /\ ts_obs t = observe s' /\ ts_op t = dm_op (sy_m s') /\ ts_out t = OutUnit /\
+    ts_taken t = None /\
+    pos_rem (sy_m s') = pos_rem (sy_m s) /\ dm_cycle (sy_m s') = dm_cycle (sy_m s) /\
+    dm_op (sy_m s') = dm_op (sy_m s) /\
+    exists h pc, nth_error (sy_handles s) k = Some (Some h) /\ hd_index h = i /\
+                 nth_error (cf_periphs c) k = Some pc /\ pc_addr pc = old /\ fits pc p.
+Proof.
+  intros c Hc s gs pend k a s' t old HB Hs Hb Hro Hc' Hpend.
+  destruct (reset_trans c Hc s gs pend k a s' t HB Hs Hb)
+    as (h & pc & p & Hk & Hpc & Hsl & Hfit & Hro' & Hhs & Et & Hsl' & Hoth & Hpr & Hcy & Hop & HB').
+  rewrite Hro in Hro'. inversion Hro'; subst old.
+  specialize (HB' Hc' Hpend).
+  pose proof HB as [I G]. pose proof HB' as [I' G'].
+  pose proof (sinv_addr_inj c s Hc I) as Hinj. pose proof (sinv_addr_inj _ s' Hc' I') as Hinj'.
+  exists (hd_index h), p. cbv zeta.
+  split; [exact HB'|]. split; [exact Hsl|]. split; [exact (proj1 Hfit)|]. split; [exact Hsl'|].
+  split; [exact Hoth|].
+  split.
+  { intros j q Hne Hq E. apply Hne. apply (Hinj' j (hd_index h) q (p_reset_address p a)); [|exact Hsl'|].
+    - rewrite Hoth by exact Hne. exact Hq.
+    - rewrite E. reflexivity. }
+  split; [exact Hinj|]. split; [exact Hinj'|].
+  split.
+  { intros da E. destruct (gi_pend _ _ _ _ G da E) as (j & q & _ & Hq & Ha & _). exists j, q. auto. }
+  split; [exact Hhs|].
+  rewrite Et. cbn [ts_in ts_obs ts_op ts_out ts_taken]. unfold step_event, step_cc, view_of. cbn [ts_in ts_out ts_taken].
+  repeat (split; [reflexivity|]). split; [exact Hpr|]. split; [exact Hcy|]. split; [exact Hop|].
+  exists h, pc. auto.
+Qed.
+
+(* ------------------------------------------------------------------ C08 *)
+
+Definition Pparams (pa : params) (c : conf) : Prop := cf_params c = pa.
+
+Lemma Pparams_set : forall pa c k a, Pparams pa c -> Pparams pa (conf_set_addr c k a).
+Proof. intros pa c k a H. exact H. Qed.
+
+Lemma R8_reset : forall p a, R8 (p_reset_address p a) ghost0 c08_init.
+Proof. intros. unfold R8. cbn. split; [reflexivity|]. split; [reflexivity|]. intro H; discriminate H. Qed.
+
+Lemma pending_keep : forall (pendg : option (Z * service)) pend m gs old,
+  pend_link m gs pend pendg -> pend <> Some old ->
+  match pendg with Some (da, sv) => if da =? old then None else Some (da, sv) | None => None end = pendg.
+Proof.
+  intros [[da sv]|] pend m gs old H Hne; [|reflexivity].
+  destruct pend as [d|]; [|contradiction]. destruct H as (-> & _).
+  destruct (Z.eqb_spec d old) as [->|_]; [now elim Hne|reflexivity].
+Qed.
+
+Lemma c08_reset_step : forall pa c, conf_ok c -> Pparams pa c -> forall s gs pend g k a t s' n old,
+  Rel8 c s gs pend g -> model_step s (InResetAddr k a) = Ok (s', t) -> is_bad (ts_out t) = false ->
+  reset_of c t = Some (k, old, a) -> conf_ok (conf_set_addr c k a) -> pend <> Some old ->
+  exists gs' g', c08_step_ra (Z.to_nat (p_max_retry pa)) (c, g) n t = inl (conf_set_addr c k a, g') /\
+                 Rel8 (conf_set_addr c k a) s' gs' pend g'.
+Proof.
+  intros pa c Hc HPc s gs pend g k a t s' n old (HB & Hper & Hpl) Hs Hb Hro Hc' Hpend.
+  destruct (reset_common c Hc s gs pend k a s' t old HB Hs Hb Hro Hc' Hpend)
+    as (i & p & HB' & Hsl & Hold & Hsl' & Hoth & Hfree & Hinj & Hinj' & Hex & _).
+  unfold c08_step_ra. rewrite Hro. rewrite (pending_keep _ _ _ _ old Hpl Hpend).
+  eexists. eexists. split; [reflexivity|].
+  split; [exact HB'|]. cbn [g8_per g8_pending]. split.
+  - apply (per_ok_reset c08st c08_init R8 (sy_m s) gs (g8_per g) (sy_m s') i p (p_reset_address p a) old a); auto.
+    apply R8_reset.
+  - apply (pend_link_reset (sy_m s) gs pend (g8_pending g) (sy_m s') i p (p_reset_address p a) ghost0); auto.
+    rewrite Hold. exact Hpend.
+Qed.
+
+Theorem c08_oracle_sound_ra : forall c s0 ins s' tr, conf_ok c ->
+  init_sys c = Ok s0 -> model_run s0 ins = Ok (s', tr) ->
+  contract_ok c tr = true -> driver_ok (sy_handles s0) tr = true ->
+  ra_sane c tr = true -> reset_guard c None tr = true ->
+  c08_monitor_ra c tr = None.
+Proof.
+  intros c s0 ins s' tr Hc Hinit Hrun Hct Hdr Hsane Hguard.
+  destruct (init_invariants c s0 Hc Hinit) as (I0 & G0 & _ & _ & Hfresh & _).
+  unfold c08_monitor_ra.
+  apply (sound_generic_ra c08g (fun c => c08_step (Z.to_nat (p_max_retry (cf_params c))))
+           (c08_step_ra (Z.to_nat (p_max_retry (cf_params c)))) Rel8 (Pparams (cf_params c))
+           (Pparams_set (cf_params c))) with (ins := ins) (s := s0) (gs := fun _ => ghost0) (pend := None) (s' := s'); auto.
+  - intros c1 g n t HP Hro. unfold c08_step_ra. rewrite Hro. rewrite HP. reflexivity.
+  - intros c1 s gs pend g (HB & _). exact HB.
+  - intros c1 Hc1 s gs pend g i t s1 n HR Hs Hh Hri. apply (c08_sound_step c1 Hc1 s gs pend g i t s1 n HR Hs Hh Hri).
+  - intros c1 Hc1 HP1. apply (c08_reset_step (cf_params c) c1 Hc1 HP1).
+  - reflexivity.
+  - split; [split; assumption|]. cbn [g8_per g8_pending]. split; [|exact Logic.I].
+    split.
+    + intros i p Hp. destruct (Hfresh _ _ Hp) as (k & pc & _ & ->). cbn. unfold periph_of_conf. apply R8_init.
+    + intros a _. reflexivity.
+Qed.
+
+(* ------------------------------------------------------------------ C03 *)
+
+Lemma c03_reset_step : forall c, conf_ok c -> True -> forall s gs pend g k a t s' n old,
+  Rel3 c s gs pend g -> model_step s (InResetAddr k a) = Ok (s', t) -> is_bad (ts_out t) = false ->
+  reset_of c t = Some (k, old, a) -> conf_ok (conf_set_addr c k a) -> pend <> Some old ->
+  exists gs' g', c03_step_ra (c, g) n t = inl (conf_set_addr c k a, g') /\
+                 Rel3 (conf_set_addr c k a) s' gs' pend g'.
+Proof.
+  intros c Hc _ s gs pend g k a t s' n old (HB & Hper & Hpl) Hs Hb Hro Hc' Hpend.
+  destruct (reset_common c Hc s gs pend k a s' t old HB Hs Hb Hro Hc' Hpend)
+    as (i & p & HB' & Hsl & Hold & Hsl' & Hoth & Hfree & Hinj & Hinj' & Hex & _).
+  unfold c03_step_ra. rewrite Hro.
+  eexists. eexists. split; [reflexivity|].
+  split; [exact HB'|]. cbn [g3_per g3_pending]. split.
+  - apply (per_ok_reset phase PhNeedDiag R3 (sy_m s) gs (g3_per g) (sy_m s') i p (p_reset_address p a) old a); auto.
+    reflexivity.
+  - apply (pend_link_reset (sy_m s) gs pend (g3_pending g) (sy_m s') i p (p_reset_address p a) ghost0); auto.
+    rewrite Hold. exact Hpend.
+Qed.
+
+Theorem c03_oracle_sound_ra : forall c s0 ins s' tr, conf_ok c ->
+  init_sys c = Ok s0 -> model_run s0 ins = Ok (s', tr) ->
+  contract_ok c tr = true -> driver_ok (sy_handles s0) tr = true ->
+  ra_sane c tr = true -> reset_guard c None tr = true ->
+  c03_monitor_ra c tr = None.
+Proof.
+  intros c s0 ins s' tr Hc Hinit Hrun Hct Hdr Hsane Hguard.
+  destruct (init_invariants c s0 Hc Hinit) as (I0 & G0 & _ & _ & Hfresh & _).
+  unfold c03_monitor_ra.
+  apply (sound_generic_ra c03g c03_step c03_step_ra Rel3 (fun _ => True) (fun _ _ _ _ => Logic.I))
+    with (ins := ins) (s := s0) (gs := fun _ => ghost0) (pend := None) (s' := s'); auto.
+  - intros c1 g n t _ Hro. unfold c03_step_ra. rewrite Hro. reflexivity.
+  - intros c1 s gs pend g (HB & _). exact HB.
+  - intros c1 Hc1 s gs pend g i t s1 n HR Hs Hh Hri. apply (c03_sound_step c1 Hc1 s gs pend g i t s1 n HR Hs Hh Hri).
+  - exact c03_reset_step.
+  - split; [split; assumption|]. cbn [g3_per g3_pending]. split; [|exact Logic.I].
+    split.
+    + intros i p Hp. reflexivity.
+    + intros a _. reflexivity.
+Qed.
+
+(* PART 22: transcripts with reset_address: C04 and C14 *)
+
+(* ------------------------------------------------------------------ C04 *)
+
+Lemma c04_reset_step : forall c, conf_ok c -> True -> forall s gs pend g k a t s' n old,
+  Rel4 c s gs pend g -> model_step s (InResetAddr k a) = Ok (s', t) -> is_bad (ts_out t) = false ->
+  reset_of c t = Some (k, old, a) -> conf_ok (conf_set_addr c k a) -> pend <> Some old ->
+  exists gs' g', c04_step_ra (c, g) n t = inl (conf_set_addr c k a, g') /\
+                 Rel4 (conf_set_addr c k a) s' gs' pend g'.
+Proof.
+  intros c Hc _ s gs pend g k a t s' n old (HB & Hobs & Hop & Hpl) Hs Hb Hro Hc' Hpend.
+  destruct (reset_common c Hc s gs pend k a s' t old HB Hs Hb Hro Hc' Hpend)
+    as (i & p & HB' & Hsl & Hold & Hsl' & Hoth & Hfree & Hinj & Hinj' & Hex & Hhs & Hin & Hv & Hev & _ & Hto & Htop & _ & Htk & _).
+  pose proof HB as [I G]. pose proof HB' as [I' G'].
+  unfold c04_step_ra. rewrite Hro. rewrite (pending_keep _ _ _ _ old Hpl Hpend).
+  assert (Hchk : chk_go None (ts_in t) 0%nat (g4_obs g) (ts_obs t) = None).
+  { rewrite Hobs, Hto. apply (chk_images_ok c (conf_set_addr c k a) None (ts_in t) s s' I I').
+    - intros n0 h0 H0. rewrite Hhs. exact H0.
+    - apply images_same; [|rewrite Hin; exact Logic.I].
+      intros j q q' Hq Hq'. destruct (Nat.eq_dec j i) as [->|Hne].
+      + rewrite Hsl in Hq. rewrite Hsl' in Hq'. inversion Hq; inversion Hq'; subst. split; reflexivity.
+      + rewrite Hoth in Hq' by exact Hne. rewrite Hq in Hq'. inversion Hq'; subst. split; reflexivity. }
+  assert (Hevok : c04_evok c t None = true) by (apply evok_none; rewrite Hev; exact Logic.I).
+  assert (E : c04_step c (mkC04g (g4_obs g) (g4_op g) (g4_pending g)) n t =
+              inl (mkC04g (ts_obs t) (ts_op t) (g4_pending g))).
+  { rewrite c04_step_eq. cbv zeta. rewrite Hv. cbn [c04_upd c04_sc c04_req c04_pending' g4_obs g4_op g4_pending].
+    rewrite Hchk, Hevok. reflexivity. }
+  rewrite E. eexists. eexists. split; [reflexivity|].
+  split; [exact HB'|]. cbn [g4_obs g4_op g4_pending]. split; [exact Hto|]. split; [exact Htop|].
+  apply (pend_link_reset (sy_m s) gs pend (g4_pending g) (sy_m s') i p (p_reset_address p a) ghost0); auto.
+  rewrite Hold. exact Hpend.
+Qed.
+
+Theorem c04_oracle_sound_ra : forall c s0 ins s' tr, conf_ok c ->
+  init_sys c = Ok s0 -> model_run s0 ins = Ok (s', tr) ->
+  contract_ok c tr = true -> driver_ok (sy_handles s0) tr = true ->
+  ra_sane c tr = true -> reset_guard c None tr = true ->
+  c04_monitor_ra c (observe s0) tr = None.
+Proof.
+  intros c s0 ins s' tr Hc Hinit Hrun Hct Hdr Hsane Hguard.
+  destruct (init_invariants c s0 Hc Hinit) as (I0 & G0 & Hop0 & _ & Hfresh & _).
+  unfold c04_monitor_ra.
+  apply (sound_generic_ra c04g c04_step c04_step_ra Rel4 (fun _ => True) (fun _ _ _ _ => Logic.I))
+    with (ins := ins) (s := s0) (gs := fun _ => ghost0) (pend := None) (s' := s'); auto.
+  - intros c1 g n t _ Hro. unfold c04_step_ra. rewrite Hro. reflexivity.
+  - intros c1 s gs pend g (HB & _). exact HB.
+  - intros c1 Hc1 s gs pend g i t s1 n HR Hs Hh Hri. apply (c04_sound_step c1 Hc1 s gs pend g i t s1 n HR Hs Hh Hri).
+  - exact c04_reset_step.
+  - split; [split; assumption|]. cbn [g4_obs g4_op g4_pending]. split; [reflexivity|].
+    split; [symmetry; exact Hop0|exact Logic.I].
+Qed.
+
+(* ------------------------------------------------------------------ C14 *)
+
+Lemma chs_set_addr : forall ps hs k pc h a,
+  nth_error ps k = Some pc -> nth_error hs k = Some (Some h) ->
+  handles_set_addr (cur_hs ps hs) k a = cur_hs (set_nth ps k (pconf_set_addr pc a)) hs.
+Proof.
+  induction ps as [|p ps IH]; intros hs k pc h a Hp Hh.
+  - destruct k; discriminate Hp.
+  - destruct hs as [|x hs]; [destruct k; discriminate Hh|].
+    destruct k as [|k].
+    + cbn in Hp, Hh. inversion Hp; subst p. inversion Hh; subst x. reflexivity.
+    + cbn [nth_error] in Hp, Hh. specialize (IH hs k pc h a Hp Hh).
+      unfold handles_set_addr in *. destruct x as [hx|]; cbn [cur_hs set_nth nth_error].
+      * destruct (nth_error (cur_hs ps hs) k) as [[h1|]|]; rewrite <- IH; reflexivity.
+      * destruct (nth_error (cur_hs ps hs) k) as [[h1|]|]; rewrite <- IH; reflexivity.
+Qed.
+
+Lemma cur_hs_id : forall ps hs, length hs = length ps ->
+  (forall k h, nth_error hs k = Some (Some h) -> exists pc, nth_error ps k = Some pc /\ hd_addr h = pc_addr pc) ->
+  cur_hs ps hs = hs.
+Proof.
+  induction ps as [|p ps IH]; intros [|x hs] Hl H; try discriminate Hl; [reflexivity|].
+  cbn in Hl. assert (IH' : cur_hs ps hs = hs).
+  { apply IH; [lia|]. intros k h Hk. apply (H (S k) h Hk). }
+  destruct x as [h|]; cbn [cur_hs]; rewrite IH'; [|reflexivity].
+  destruct (H 0%nat h eq_refl) as (pc & Hpc & Ha). cbn in Hpc. inversion Hpc; subst pc.
+  rewrite <- Ha. destruct h; reflexivity.
+Qed.
+
+Lemma turns_reset : forall m m' rem turns cur sends due i p a,
+  addr_inj m -> slot m i = Some p -> slot m' i = Some (p_reset_address p a) ->
+  (forall j, j <> i -> slot m' j = slot m j) -> dm_cycle m' = dm_cycle m ->
+  Turns m rem turns cur sends due ->
+  Turns m' rem (map (fun x => if x =? pe_addr p then a else x) turns)
+     (match cur with Some x => Some (if x =? pe_addr p then a else x) | None => None end)
+     (if match cur with Some x => x =? pe_addr p | None => false end then 0%nat else sends)
+     (filter (fun x => negb (x =? pe_addr p)) due).
+Proof.
+  intros m m' rem turns cur sends due i p a Hinj Hp Hp' Hoth Hcy [T1 T2 T3 T4 T5 T6 T7].
+  assert (Hfw : forall j q, slot m j = Some q -> exists q', slot m' j = Some q').
+  { intros j q Hq. destruct (Nat.eq_dec j i) as [->|Hne]; [eexists; exact Hp'|].
+    exists q. rewrite Hoth by exact Hne. exact Hq. }
+  assert (Hbw : forall j q', slot m' j = Some q' -> exists q, slot m j = Some q).
+  { intros j q' Hq'. destruct (Nat.eq_dec j i) as [->|Hne]; [eexists; exact Hp|].
+    exists q'. rewrite <- Hoth by exact Hne. exact Hq'. }
+  (* a slot with address x in m: the same slot has the renamed address in m' *)
+  assert (Hren : forall j q, slot m j = Some q ->
+            exists q', slot m' j = Some q' /\ pe_addr q' = (if pe_addr q =? pe_addr p then a else pe_addr q) /\
+                       ((pe_addr q =? pe_addr p) = true -> j = i /\ pe_retry q' = 0) /\
+                       ((pe_addr q =? pe_addr p) = false -> q' = q)).
+  { intros j q Hq. destruct (Z.eqb_spec (pe_addr q) (pe_addr p)) as [E|Hne].
+    - assert (j = i) by (apply (Hinj _ _ _ _ Hq Hp E)). subst j.
+      exists (p_reset_address p a). split; [exact Hp'|]. split; [reflexivity|]. split; [auto|]. intro X; discriminate X.
+    - assert (Hji : j <> i) by (intro X; subst j; rewrite Hp in Hq; inversion Hq; subst q; apply Hne; reflexivity).
+      exists q. split; [rewrite Hoth by exact Hji; exact Hq|]. split; [reflexivity|]. split; [intro X; discriminate X|auto]. }
+  constructor.
+  - exact T1.
+  - intros j Hj. destruct (T2 j Hj) as (q & Hq). apply (Hfw _ _ Hq).
+  - intros i0 j q' Hq' Hni Hj. destruct (Hbw _ _ Hq') as (q & Hq). apply (T3 i0 j q Hq Hni Hj).
+  - intros x Hx. apply in_map_iff in Hx. destruct Hx as (y & <- & Hy).
+    destruct (T4 y Hy) as (j & q & Hq & Hqa & Hor). destruct (Hren _ _ Hq) as (q' & Hq' & Ea & _).
+    exists j, q'. split; [exact Hq'|]. split; [rewrite Ea, Hqa; reflexivity|].
+    destruct Hor as [Hn|(r & Hr & Hc)]; [left; exact Hn|right]. exists r. split; [exact Hr|]. rewrite Hc. reflexivity.
+  - intros x Hx. destruct cur as [y|]; [|discriminate Hx]. inversion Hx; subst x. clear Hx.
+    destruct (T5 y eq_refl) as (j & r & q & Hr & Hq & Hqa & Hin & Hsd).
+    destruct (Hren _ _ Hq) as (q' & Hq' & Ea & H1 & H2).
+    exists j, r, q'. split; [exact Hr|]. split; [exact Hq'|]. split; [rewrite Ea, Hqa; reflexivity|].
+    split; [apply in_map_iff; exists y; auto|].
+    rewrite <- Hqa. destruct (pe_addr q =? pe_addr p) eqn:E.
+    + destruct (H1 eq_refl) as (_ & ->). cbn. lia.
+    + rewrite (H2 eq_refl). exact Hsd.
+  - intros x Hx. apply filter_In in Hx. destruct Hx as (Hx & Hne). apply negb_true_iff in Hne.
+    destruct (T6 x Hx) as [Hin|(j & q & Hj & Hq & Hqa & Hl & Hcm)].
+    + left. apply in_map_iff. exists x. rewrite Hne. auto.
+    + right. destruct (Hren _ _ Hq) as (q' & Hq' & _ & _ & H2). rewrite Hqa, Hne in H2. rewrite (H2 eq_refl) in Hq'.
+      exists j, q. auto.
+  - intro E. rewrite Hcy in E. rewrite (T7 E). reflexivity.
+Qed.
+
+Lemma c14_reset_step : forall c, conf_ok c -> True -> forall s gs pend g k a t s' n old,
+  Rel14 c s gs pend g -> model_step s (InResetAddr k a) = Ok (s', t) -> is_bad (ts_out t) = false ->
+  reset_of c t = Some (k, old, a) -> conf_ok (conf_set_addr c k a) -> pend <> Some old ->
+  exists gs' g', c14_step_ra (c, g) n t = inl (conf_set_addr c k a, g') /\
+                 Rel14 (conf_set_addr c k a) s' gs' pend g'.
+Proof.
+  intros c Hc _ s gs pend g k a t s' n old (HB & Hh & Hcc & Hlife & HP & HT) Hs Hb Hro Hc' Hpend.
+  destruct (reset_common c Hc s gs pend k a s' t old HB Hs Hb Hro Hc' Hpend)
+    as (i & p & HB' & Hsl & Hold & Hsl' & Hoth & Hfree & Hinj & Hinj' & Hex & Hhs & Hin & Hv & Hev & Hncc & Hto & Htop &
+        Hout & Htk & Hpr & Hcy & Hop & h & pc & Hk & Hhi & Hpc & Hpca & Hfit).
+  unfold c14_step_ra. rewrite Hro.
+  match goal with |- context [c14_step ?c2 ?g1 n t] => set (g1v := g1) end.
+  assert (HR1 : Rel14 (conf_set_addr c k a) s' (gupd gs i ghost0) pend g1v).
+  { split; [exact HB'|]. unfold g1v. cbn [g14_handles g14_life g14_cur g14_dirty g14_turns g14_sends g14_due].
+    split.
+    { rewrite Hh. unfold chs. rewrite Hhs. unfold conf_set_addr. cbn [cf_periphs]. rewrite Hpc.
+      apply (chs_set_addr _ _ _ _ h a Hpc Hk). }
+    split.
+    { intros _ E. assert (X : In i (occupied (sy_m s'))) by (apply occupied_in_slot; eexists; exact Hsl').
+      rewrite E in X. destruct X. }
+    split.
+    { apply (per_ok_reset lstate LOff RL (sy_m s) gs (g14_life g) (sy_m s') i p (p_reset_address p a) old a); auto.
+      reflexivity. }
+    split.
+    { intros da E. rewrite (HP da E). destruct (Z.eqb_spec da old) as [->|_]; [now elim Hpend|reflexivity]. }
+    intro Hd. specialize (HT Hd). rewrite Hpr. rewrite <- Hold.
+    apply (turns_reset (sy_m s) (sy_m s') _ _ _ _ _ i p a Hinj Hsl Hsl' Hoth Hcy HT). }
+  destruct (c14_static (conf_set_addr c k a) s' (gupd gs i ghost0) pend g1v t s' (gupd gs i ghost0) n HR1) as (g' & Hg1 & Hg2).
+  - rewrite Hv. exact HB'.
+  - reflexivity.
+  - intros k0 E. rewrite Hin in E. discriminate E.
+  - intro j. left. reflexivity.
+  - reflexivity.
+  - reflexivity.
+  - left. exact Hv.
+  - exact Hev.
+  - exact Hncc.
+  - exact Hto.
+  - rewrite Hout. exact Logic.I.
+  - rewrite Hg1. rewrite Hv in Hg2. cbn [pend_next_v] in Hg2. exists (gupd gs i ghost0), g'. auto.
+Qed.
+
+Theorem c14_oracle_sound_ra : forall c s0 ins s' tr, conf_ok c ->
+  init_sys c = Ok s0 -> model_run s0 ins = Ok (s', tr) ->
+  contract_ok c tr = true -> driver_ok (sy_handles s0) tr = true ->
+  ra_sane c tr = true -> reset_guard c None tr = true ->
+  c14_monitor_ra c (sy_handles s0) tr = None.
+Proof.
+  intros c s0 ins s' tr Hc Hinit Hrun Hct Hdr Hsane Hguard.
+  destruct (init_invariants c s0 Hc Hinit) as (I0 & G0 & Hop0 & Hcy0 & Hfresh & Hha & _).
+  unfold c14_monitor_ra.
+  apply (sound_generic_ra c14g c14_step c14_step_ra Rel14 (fun _ => True) (fun _ _ _ _ => Logic.I))
+    with (ins := ins) (s := s0) (gs := fun _ => ghost0) (pend := None) (s' := s'); auto.
+  - intros c1 g n t _ Hro. unfold c14_step_ra. rewrite Hro. reflexivity.
+  - intros c1 s gs pend g (HB & _). exact HB.
+  - intros c1 Hc1 s gs pend g i t s1 n HR Hs Hh Hri. apply (c14_sound_step c1 Hc1 s gs pend g i t s1 n HR Hs Hh Hri).
+  - exact c14_reset_step.
+  - split; [split; assumption|]. cbn [g14_handles g14_life g14_cur g14_dirty g14_turns g14_sends g14_due].
+    split.
+    { unfold chs. symmetry. apply cur_hs_id; [exact (si_len _ _ I0)|exact Hha]. }
+    split; [intro E; rewrite Hcy0 in E; discriminate E|]. split.
+    + split.
+      * intros i p Hp. destruct (Hfresh _ _ Hp) as (k & pc & _ & ->). reflexivity.
+      * intros a _. reflexivity.
+    + split; [intros da E; discriminate E|]. intros _. apply turns_fresh.
+      * apply pos_rem_zero. exact Hcy0.
+      * intros a [].
+Qed.
+
+(* PART 23: histories without reset_address (the monitors the driver runs are then the plain ones); the guard of
+   the reset_address theorems follows from the driver's known-class test; a computed history with reset_address *)
 
 Section Wrap.
 Variable St : Type.
 Variable c : conf.
 Variable step : St -> nat -> tstep -> St + Z.
 Variable step_ra : conf * St -> nat -> tstep -> (conf * St) + Z.
-Hypothesis Hwrap : forall g i s, step_is_reset s = false ->
+Hypothesis Hwrap : forall g i s, is_reset_in (ts_in s) = false ->
   step_ra (c, g) i s = match step g i s with inl g' => inl (c, g') | inr code => inr code end.
 
 Lemma run_monitor_wrap : forall l g i, has_reset l = false ->
@@ -4872,18 +5510,32 @@ Proof.
   cbn [ra_sane]. rewrite (reset_of_none c s H1). rewrite (IH H2). destruct (conf_sane c); reflexivity.
 Qed.
 
-(* soundness for what the driver runs, on histories without reset_address *)
+Lemma reset_guard_plain : forall l c pend, has_reset l = false -> reset_guard c pend l = true.
+Proof.
+  induction l as [|s l IH]; intros c pend H; [reflexivity|].
+  unfold has_reset in H. cbn [existsb] in H. apply orb_false_iff in H. destruct H as [H1 H2].
+  cbn [reset_guard]. rewrite (reset_of_none c s H1). apply IH. exact H2.
+Qed.
+
+(* ------------------------------------------------------------------ histories without reset_address *)
 Section RaSound.
 Variable c : conf.
 Hypothesis Hc : conf_ok c.
+
+Lemma plain_hyps : forall s0 ins s' tr, model_run s0 ins = Ok (s', tr) -> no_reset ins = true ->
+  has_reset tr = false /\ ra_sane c tr = true /\ reset_guard c None tr = true.
+Proof.
+  intros s0 ins s' tr Hr Hn. pose proof (model_run_no_reset _ _ _ _ Hr Hn) as H.
+  split; [exact H|]. split; [rewrite (ra_sane_plain c tr H); exact (co_sane _ Hc)|apply reset_guard_plain; exact H].
+Qed.
 
 Theorem c03_oracle_sound_ra0 : forall s0 ins s' tr,
   init_sys c = Ok s0 -> no_reset ins = true -> model_run s0 ins = Ok (s', tr) ->
   contract_ok c tr = true -> driver_ok (sy_handles s0) tr = true ->
   c03_monitor_ra c tr = None.
 Proof.
-  intros s0 ins s' tr H0 Hn Hr Hct Hd. rewrite (c03_ra_agrees c tr (model_run_no_reset _ _ _ _ Hr Hn)).
-  apply (c03_oracle_sound c Hc s0 ins s' tr); assumption.
+  intros s0 ins s' tr H0 Hn Hr Hct Hd. destruct (plain_hyps _ _ _ _ Hr Hn) as (_ & H1 & H2).
+  apply (c03_oracle_sound_ra c s0 ins s' tr); assumption.
 Qed.
 
 Theorem c08_oracle_sound_ra0 : forall s0 ins s' tr,
@@ -4891,8 +5543,8 @@ Theorem c08_oracle_sound_ra0 : forall s0 ins s' tr,
   contract_ok c tr = true -> driver_ok (sy_handles s0) tr = true ->
   c08_monitor_ra c tr = None.
 Proof.
-  intros s0 ins s' tr H0 Hn Hr Hct Hd. rewrite (c08_ra_agrees c tr (model_run_no_reset _ _ _ _ Hr Hn)).
-  apply (c08_oracle_sound c Hc s0 ins s' tr); assumption.
+  intros s0 ins s' tr H0 Hn Hr Hct Hd. destruct (plain_hyps _ _ _ _ Hr Hn) as (_ & H1 & H2).
+  apply (c08_oracle_sound_ra c s0 ins s' tr); assumption.
 Qed.
 
 Theorem c04_oracle_sound_ra0 : forall s0 ins s' tr,
@@ -4900,8 +5552,8 @@ Theorem c04_oracle_sound_ra0 : forall s0 ins s' tr,
   contract_ok c tr = true -> driver_ok (sy_handles s0) tr = true ->
   c04_monitor_ra c (observe s0) tr = None.
 Proof.
-  intros s0 ins s' tr H0 Hn Hr Hct Hd. rewrite (c04_ra_agrees c _ tr (model_run_no_reset _ _ _ _ Hr Hn)).
-  apply (c04_oracle_sound c Hc s0 ins s' tr); assumption.
+  intros s0 ins s' tr H0 Hn Hr Hct Hd. destruct (plain_hyps _ _ _ _ Hr Hn) as (_ & H1 & H2).
+  apply (c04_oracle_sound_ra c s0 ins s' tr); assumption.
 Qed.
 
 Theorem c14_oracle_sound_ra0 : forall s0 ins s' tr,
@@ -4909,7 +5561,134 @@ Theorem c14_oracle_sound_ra0 : forall s0 ins s' tr,
   contract_ok c tr = true -> driver_ok (sy_handles s0) tr = true ->
   c14_monitor_ra c (sy_handles s0) tr = None.
 Proof.
-  intros s0 ins s' tr H0 Hn Hr Hct Hd. rewrite (c14_ra_agrees c _ tr (model_run_no_reset _ _ _ _ Hr Hn)).
-  apply (c14_oracle_sound c Hc s0 ins s' tr); assumption.
+  intros s0 ins s' tr H0 Hn Hr Hct Hd. destruct (plain_hyps _ _ _ _ Hr Hn) as (_ & H1 & H2).
+  apply (c14_oracle_sound_ra c s0 ins s' tr); assumption.
+Qed.
+
+(* the monitors of phase 1 *)
+Theorem c03_oracle_sound : forall s0 ins s' tr,
+  init_sys c = Ok s0 -> no_reset ins = true -> model_run s0 ins = Ok (s', tr) ->
+  contract_ok c tr = true -> driver_ok (sy_handles s0) tr = true ->
+  c03_monitor c tr = None.
+Proof.
+  intros s0 ins s' tr H0 Hn Hr Hct Hd. rewrite <- (c03_ra_agrees c tr (model_run_no_reset _ _ _ _ Hr Hn)).
+  apply (c03_oracle_sound_ra0 s0 ins s' tr); assumption.
+Qed.
+
+Theorem c08_oracle_sound : forall s0 ins s' tr,
+  init_sys c = Ok s0 -> no_reset ins = true -> model_run s0 ins = Ok (s', tr) ->
+  contract_ok c tr = true -> driver_ok (sy_handles s0) tr = true ->
+  c08_monitor c tr = None.
+Proof.
+  intros s0 ins s' tr H0 Hn Hr Hct Hd. rewrite <- (c08_ra_agrees c tr (model_run_no_reset _ _ _ _ Hr Hn)).
+  apply (c08_oracle_sound_ra0 s0 ins s' tr); assumption.
+Qed.
+
+Theorem c04_oracle_sound : forall s0 ins s' tr,
+  init_sys c = Ok s0 -> no_reset ins = true -> model_run s0 ins = Ok (s', tr) ->
+  contract_ok c tr = true -> driver_ok (sy_handles s0) tr = true ->
+  c04_monitor c (observe s0) tr = None.
+Proof.
+  intros s0 ins s' tr H0 Hn Hr Hct Hd. rewrite <- (c04_ra_agrees c _ tr (model_run_no_reset _ _ _ _ Hr Hn)).
+  apply (c04_oracle_sound_ra0 s0 ins s' tr); assumption.
+Qed.
+
+Theorem c14_oracle_sound : forall s0 ins s' tr,
+  init_sys c = Ok s0 -> no_reset ins = true -> model_run s0 ins = Ok (s', tr) ->
+  contract_ok c tr = true -> driver_ok (sy_handles s0) tr = true ->
+  c14_monitor c (sy_handles s0) tr = None.
+Proof.
+  intros s0 ins s' tr H0 Hn Hr Hct Hd. rewrite <- (c14_ra_agrees c _ tr (model_run_no_reset _ _ _ _ Hr Hn)).
+  apply (c14_oracle_sound_ra0 s0 ins s' tr); assumption.
 Qed.
 End RaSound.
+
+(* ------------------------------------------------------------------ the guard and the driver's known-class test *)
+
+(* every new address is a station address *)
+Fixpoint reset_range (c : conf) (l : list tstep) : bool :=
+  match l with
+  | [] => true
+  | s :: r =>
+      match reset_of c s with
+      | Some (k, _, a) => (0 <=? a) && (a <=? 125) && reset_range (conf_set_addr c k a) r
+      | None => reset_range c r
+      end
+  end.
+
+Definition kstep (acc : (conf * option Z) * bool) (s : tstep) : (conf * option Z) * bool :=
+  let '(c, pending, hit) := acc in
+  match reset_of c s with
+  | Some (k, old, a) =>
+      (conf_set_addr c k a, pending, hit || match pending with Some da => da =? old | None => false end)
+  | None =>
+      match view_of s with
+      | VReq da _ _ _ => (c, Some da, hit)
+      | VReply _ _ | VTimeout _ | VAbandon => (c, None, hit)
+      | _ => (c, pending, hit)
+      end
+  end.
+
+Lemma known_eq : forall c l, known_reset_while_pending c l = snd (fold_left kstep l (c, None, false)).
+Proof. reflexivity. Qed.
+
+Lemma kstep_hit : forall l c p, snd (fold_left kstep l (c, p, true)) = true.
+Proof.
+  induction l as [|s l IH]; intros c p; [reflexivity|]. cbn [fold_left]. unfold kstep at 2.
+  destruct (reset_of c s) as [[[k old] a]|]; [apply IH|].
+  destruct (view_of s); apply IH.
+Qed.
+
+Lemma reset_guard_known_gen : forall l c pk pm, (pm = None \/ pm = pk) ->
+  snd (fold_left kstep l (c, pk, false)) = false -> reset_range c l = true -> reset_guard c pm l = true.
+Proof.
+  induction l as [|s l IH]; intros c pk pm Hp Hk Hr; [reflexivity|].
+  cbn [fold_left] in Hk. unfold kstep at 2 in Hk. cbn [reset_range] in Hr. cbn [reset_guard].
+  destruct (reset_of c s) as [[[k old] a]|].
+  - apply andb_true_iff in Hr. destruct Hr as [Hr1 Hr2]. rewrite Hr1. cbn [orb andb] in *.
+    destruct (match pk with Some da => da =? old | None => false end) eqn:E.
+    + rewrite kstep_hit in Hk. discriminate Hk.
+    + assert (E' : match pm with Some da => da =? old | None => false end = false)
+        by (destruct Hp as [->| ->]; [reflexivity|exact E]).
+      rewrite E'. cbn [negb andb]. apply (IH _ pk pm Hp Hk Hr2).
+  - destruct (view_of s) eqn:Ev; cbn [pend_next_v];
+      first [apply (IH c _ _ (or_intror eq_refl) Hk Hr) | apply (IH c _ _ (or_introl eq_refl) Hk Hr) | apply (IH c _ _ Hp Hk Hr)].
+Qed.
+
+(* the driver's test: no reset_address while the reply of that peripheral is outstanding (outside F22) *)
+Theorem reset_guard_known : forall c l,
+  known_reset_while_pending c l = false -> reset_range c l = true -> reset_guard c None l = true.
+Proof.
+  intros c l Hk Hr. rewrite known_eq in Hk. apply (reset_guard_known_gen l c None None); auto.
+Qed.
+
+(* ------------------------------------------------------------------ a computed history with reset_address *)
+
+(* ex_conf of PART 18; reset_address to the same address after the bring-up started, to another address after a
+   time-out, of a peripheral that was just added, and back to the first address *)
+Definition ex_ins_ra : list tr_in :=
+  [InEnter OpOperate; InTx 0 false; InTx 10 false; InRx 20 7 ex_diag; InTake; InResetAddr 0 7; InTx 30 false;
+   InTx 35 false; InTo 40 7; InResetAddr 0 12; InTx 50 false; InTo 60 12; InAdd 1; InResetAddr 1 9; InTx 70 false;
+   InTo 80 9; InTx 90 false; InResetAddr 0 7; InTx 110 false; InTo 120 7; InClean].
+
+Lemma oracle_sound_ra_example :
+  conf_ok ex_conf /\
+  exists s0 s' tr, init_sys ex_conf = Ok s0 /\ model_run s0 ex_ins_ra = Ok (s', tr) /\
+    has_reset tr = true /\ contract_ok ex_conf tr = true /\ driver_ok (sy_handles s0) tr = true /\
+    ra_sane ex_conf tr = true /\ known_reset_while_pending ex_conf tr = false /\ reset_range ex_conf tr = true /\
+    reset_guard ex_conf None tr = true /\ length tr = 21%nat /\
+    map (fun t => match reset_of ex_conf t with Some _ => true | None => false end) tr =
+      [false; false; false; false; false; true; false; false; false; true; false; false; false; true; false; false;
+       false; true; false; false; false] /\
+    map step_event tr = [None; None; None; Some (7, EvOnline); None; None; None; None; None; None; None; None; None;
+                         None; None; None; None; None; None; None; None].
+Proof.
+  split; [exact ex_conf_ok|].
+  destruct (init_sys ex_conf) as [s0| |] eqn:E0; try (vm_compute in E0; discriminate E0).
+  destruct (model_run s0 ex_ins_ra) as [[s' tr]| |] eqn:E1.
+  - exists s0, s', tr. split; [reflexivity|]. split; [exact E1|].
+    vm_compute in E0. inversion E0; subst s0. vm_compute in E1. inversion E1; subst tr.
+    repeat split; vm_compute; reflexivity.
+  - exfalso. vm_compute in E0. inversion E0; subst s0. vm_compute in E1. discriminate E1.
+  - exfalso. vm_compute in E0. inversion E0; subst s0. vm_compute in E1. discriminate E1.
+Qed.
